@@ -1,7 +1,7 @@
-(* C10_Regress_PreFix.v — FROZEN snapshot (not regenerated): the access table that props/C10_translate.py
-   produced for /repo at e410e18^ (49d7ed0), i.e. before the skip flags were repaired by e410e18
-   (bool skip_ -> bfl::SkipFlag).  Regression spec: on that table the checker reports exactly the six
-   skip_ flags.  Not part of any property theorem. *)
+(* C10_Regress_PreFix.v — FROZEN snapshot (not regenerated on a run): the access table that props/C10_translate.py
+   produces for the sources of /repo with the fix commit e410e18 (bool skip_ -> bfl::SkipFlag) reverted.
+   Regression spec: on that table the checker reports exactly the six skip_ flags.
+   Not part of any property theorem. *)
 Require Import List String.
 Import ListNotations.
 Require Import BFL.C10_Model BFL.C10_Proofs.
@@ -22,8 +22,10 @@ Definition prefix_table : table := [
       mkAcc (Named "FilteringAlgorithm::reset_") Wr (Plain) "construction";
       mkAcc (Named "FilteringAlgorithm::run_") Wr (Plain) "construction";
       mkAcc (Named "FilteringAlgorithm::teardown_") Wr (Plain) "construction";
+      mkAcc (Named "GPFCorrection::distribution_") Wr (Plain) "construction";
       mkAcc (Named "GPFCorrection::gaussian_correction_") Wr (Plain) "construction";
       mkAcc (Named "GPFCorrection::gaussian_random_sample_") Wr (Plain) "construction";
+      mkAcc (Named "GPFCorrection::generator_") Wr (Plain) "construction";
       mkAcc (Named "GPFCorrection::likelihood_") Wr (Plain) "construction";
       mkAcc (Named "GPFCorrection::likelihood_model_") Wr (Plain) "construction";
       mkAcc (Named "GPFCorrection::state_model_") Wr (Plain) "construction";
@@ -32,19 +34,56 @@ Definition prefix_table : table := [
       mkAcc (Named "GaussianCorrection::skip_") Wr (Plain) "construction";
       mkAcc (Named "GaussianFilter::correction_") Wr (Plain) "construction";
       mkAcc (Named "GaussianFilter::prediction_") Wr (Plain) "construction";
+      mkAcc (Named "GaussianLikelihood::scale_factor_") Wr (Plain) "construction";
+      mkAcc (Named "GaussianMixture::components") Wr (Plain) "construction";
+      mkAcc (Named "GaussianMixture::covariance_") Wr (Plain) "construction";
+      mkAcc (Named "GaussianMixture::dim") Wr (Plain) "construction";
+      mkAcc (Named "GaussianMixture::dim_circular") Wr (Plain) "construction";
+      mkAcc (Named "GaussianMixture::dim_circular_component") Wr (Plain) "construction";
+      mkAcc (Named "GaussianMixture::dim_covariance") Wr (Plain) "construction";
+      mkAcc (Named "GaussianMixture::dim_linear") Wr (Plain) "construction";
+      mkAcc (Named "GaussianMixture::dim_noise") Wr (Plain) "construction";
+      mkAcc (Named "GaussianMixture::mean_") Wr (Plain) "construction";
+      mkAcc (Named "GaussianMixture::use_quaternion") Wr (Plain) "construction";
+      mkAcc (Named "GaussianMixture::weight_") Wr (Plain) "construction";
       mkAcc (Named "GaussianPrediction::skip_") Wr (Plain) "construction";
+      mkAcc (Named "ImplData::F_") Wr (Plain) "construction";
+      mkAcc (Named "ImplData::Q_") Wr (Plain) "construction";
+      mkAcc (Named "ImplData::distribution_") Wr (Plain) "construction";
+      mkAcc (Named "ImplData::gauss_rnd_sample_") Wr (Plain) "construction";
+      mkAcc (Named "ImplData::generator_") Wr (Plain) "construction";
+      mkAcc (Named "ImplData::sqrt_Q_") Wr (Plain) "construction";
+      mkAcc (Named "ImplData::state_description_") Wr (Plain) "construction";
+      mkAcc (Named "InitSurveillanceAreaGrid::num_particle_x_") Wr (Plain) "construction";
+      mkAcc (Named "InitSurveillanceAreaGrid::num_particle_y_") Wr (Plain) "construction";
+      mkAcc (Named "InitSurveillanceAreaGrid::surv_x_inf_") Wr (Plain) "construction";
+      mkAcc (Named "InitSurveillanceAreaGrid::surv_x_sup_") Wr (Plain) "construction";
+      mkAcc (Named "InitSurveillanceAreaGrid::surv_y_inf_") Wr (Plain) "construction";
+      mkAcc (Named "InitSurveillanceAreaGrid::surv_y_sup_") Wr (Plain) "construction";
       mkAcc (Named "KFCorrection::innovations_") Wr (Plain) "construction";
       mkAcc (Named "KFCorrection::meas_covariances_") Wr (Plain) "construction";
       mkAcc (Named "KFCorrection::measurement_model_") Wr (Plain) "construction";
       mkAcc (Named "KFPrediction::state_model_") Wr (Plain) "construction";
+      mkAcc (Named "LTIMeasurementModel::H_") Wr (Plain) "construction";
+      mkAcc (Named "LTIMeasurementModel::R_") Wr (Plain) "construction";
       mkAcc (Named "LTIStateModel::F_") Wr (Plain) "construction";
       mkAcc (Named "LTIStateModel::Q_") Wr (Plain) "construction";
+      mkAcc (Named "LinearModel::distribution_") Wr (Plain) "construction";
+      mkAcc (Named "LinearModel::gauss_rnd_sample_") Wr (Plain) "construction";
+      mkAcc (Named "LinearModel::generator_") Wr (Plain) "construction";
+      mkAcc (Named "LinearModel::sqrt_R_") Wr (Plain) "construction";
+      mkAcc (Named "Logger::log_enabled_") Wr (Plain) "construction";
+      mkAcc (Named "Logger::log_files_") Wr (Plain) "construction";
       mkAcc (Named "PFCorrection::skip_") Wr (Plain) "construction";
       mkAcc (Named "PFPrediction::skip_") Wr (Plain) "construction";
       mkAcc (Named "ParticleFilter::correction_") Wr (Plain) "construction";
       mkAcc (Named "ParticleFilter::initialization_") Wr (Plain) "construction";
       mkAcc (Named "ParticleFilter::prediction_") Wr (Plain) "construction";
       mkAcc (Named "ParticleFilter::resampling_") Wr (Plain) "construction";
+      mkAcc (Named "ParticleSet::state_") Wr (Plain) "construction";
+      mkAcc (Named "Resampling::generator_") Wr (Plain) "construction";
+      mkAcc (Named "ResamplingWithPrior::init_model_") Wr (Plain) "construction";
+      mkAcc (Named "ResamplingWithPrior::prior_ratio_") Wr (Plain) "construction";
       mkAcc (Named "SIS::cor_particle_") Wr (Plain) "construction";
       mkAcc (Named "SIS::num_particle_") Wr (Plain) "construction";
       mkAcc (Named "SIS::pred_particle_") Wr (Plain) "construction";
@@ -54,6 +93,14 @@ Definition prefix_table : table := [
       mkAcc (Named "SUKFCorrection::propagated_sigma_points_") Wr (Plain) "construction";
       mkAcc (Named "SUKFCorrection::use_reduced_noise_covariance_matrix_") Wr (Plain) "construction";
       mkAcc (Named "SUKFCorrection::ut_weight_") Wr (Plain) "construction";
+      mkAcc (Named "SimulatedLinearSensor::input_description_") Wr (Plain) "construction";
+      mkAcc (Named "SimulatedLinearSensor::measurement_") Wr (Plain) "construction";
+      mkAcc (Named "SimulatedLinearSensor::measurement_description_") Wr (Plain) "construction";
+      mkAcc (Named "SimulatedLinearSensor::simulated_state_model_") Wr (Plain) "construction";
+      mkAcc (Named "SimulatedStateModel::current_simulation_time_") Wr (Plain) "construction";
+      mkAcc (Named "SimulatedStateModel::data_simulated_state_model_") Wr (Plain) "construction";
+      mkAcc (Named "SimulatedStateModel::simulation_time_") Wr (Plain) "construction";
+      mkAcc (Named "SimulatedStateModel::target_") Wr (Plain) "construction";
       mkAcc (Named "StateModel::exogenous_model_") Wr (Plain) "construction";
       mkAcc (Named "StateModel::skip_") Wr (Plain) "construction";
       mkAcc (Named "UKFCorrection::additive_measurement_model_") Wr (Plain) "construction";
@@ -70,9 +117,17 @@ Definition prefix_table : table := [
       mkAcc (Named "UKFPrediction::state_model_") Wr (Plain) "construction";
       mkAcc (Named "UKFPrediction::type_") Wr (Plain) "construction";
       mkAcc (Named "UKFPrediction::ut_weight_") Wr (Plain) "construction";
-      mkAcc (Named "WhiteNoiseAcceleration::pimpl_") Wr (Plain) "construction"];
+      mkAcc (Named "UTWeight::c") Wr (Plain) "construction";
+      mkAcc (Named "UTWeight::covariance") Wr (Plain) "construction";
+      mkAcc (Named "UTWeight::mean") Wr (Plain) "construction";
+      mkAcc (Named "VectorDescription::circular_components_") Wr (Plain) "construction";
+      mkAcc (Named "VectorDescription::circular_type") Wr (Plain) "construction";
+      mkAcc (Named "VectorDescription::linear_components_") Wr (Plain) "construction";
+      mkAcc (Named "VectorDescription::noise_components_") Wr (Plain) "construction";
+      mkAcc (Named "WhiteNoiseAcceleration::pimpl_") Wr (Plain) "construction";
+      mkAcc (Named "any::content") Wr (Plain) "construction"];
   mkEntry "DrawParticles::getStateModel" Ctl Concurrent [
-      mkAcc (Named "DrawParticles::state_model_") Rd (Plain) "DrawParticles.cpp:48"];
+      mkAcc (Named "DrawParticles::state_model_") Rd (Plain) "DrawParticles.cpp:50"];
   mkEntry "ExogenousModel::is_skipping" Ctl Concurrent [
       mkAcc (Named "ExogenousModel::skip_") Rd (Plain) "ExogenousModel.cpp:27"];
   mkEntry "ExogenousModel::skip" Ctl Concurrent [
@@ -148,11 +203,114 @@ Definition prefix_table : table := [
       mkAcc (Named "UKFPrediction::type_") Rd (Plain) "UKFPrediction.cpp:71";
       mkAcc (Named "UKFPrediction::add_state_model_") Rd (Plain) "UKFPrediction.cpp:72";
       mkAcc (Named "UKFPrediction::state_model_") Rd (Plain) "UKFPrediction.cpp:74"];
+  mkEntry "(free)::any_cast" Flt Concurrent [
+      mkAcc (Named "global::value") Rd (Plain) "any.h:424"];
+  mkEntry "(free)::diff_quaternion" Flt Concurrent [
+      ];
+  mkEntry "(free)::directional_add" Flt Concurrent [
+      ];
+  mkEntry "(free)::directional_mean" Flt Concurrent [
+      ];
+  mkEntry "(free)::directional_sub" Flt Concurrent [
+      ];
+  mkEntry "(free)::log_sum_exp" Flt Concurrent [
+      ];
+  mkEntry "(free)::mean_quaternion" Flt Concurrent [
+      ];
+  mkEntry "(free)::multivariate_gaussian_density" Flt Concurrent [
+      ];
+  mkEntry "(free)::multivariate_gaussian_density_UVR" Flt Concurrent [
+      ];
+  mkEntry "(free)::multivariate_gaussian_log_density" Flt Concurrent [
+      ];
+  mkEntry "(free)::multivariate_gaussian_log_density_UVR" Flt Concurrent [
+      ];
+  mkEntry "(free)::quaternion_to_rotation_vector" Flt Concurrent [
+      ];
+  mkEntry "(free)::rotation_vector_to_quaternion" Flt Concurrent [
+      ];
+  mkEntry "(free)::sigma_point" Flt Concurrent [
+      mkAcc (Named "GaussianMixture::dim") Wr (Plain) "sigma_point.cpp:86";
+      mkAcc (Named "GaussianMixture::dim_covariance") Rd (Plain) "sigma_point.cpp:86";
+      mkAcc (Named "GaussianMixture::components") Rd (Plain) "sigma_point.cpp:86";
+      mkAcc (Named "GaussianMixture::components") Rd (Plain) "sigma_point.cpp:88";
+      mkAcc (Named "GaussianMixture::dim_covariance") Rd (Plain) "sigma_point.cpp:94";
+      mkAcc (Named "GaussianMixture::dim_covariance") Wr (Plain) "sigma_point.cpp:96";
+      mkAcc (Named "GaussianMixture::dim_covariance") Rd (Plain) "sigma_point.cpp:96";
+      mkAcc (Named "GaussianMixture::dim_covariance") Rd (Plain) "sigma_point.cpp:97";
+      mkAcc (Named "GaussianMixture::dim_linear") Rd (Plain) "sigma_point.cpp:99";
+      mkAcc (Named "GaussianMixture::dim_linear") Rd (Plain) "sigma_point.cpp:100";
+      mkAcc (Named "GaussianMixture::dim_circular") Rd (Plain) "sigma_point.cpp:102";
+      mkAcc (Named "GaussianMixture::use_quaternion") Rd (Plain) "sigma_point.cpp:104";
+      mkAcc (Named "GaussianMixture::dim_circular") Rd (Plain) "sigma_point.cpp:105";
+      mkAcc (Named "GaussianMixture::dim_linear") Rd (Plain) "sigma_point.cpp:108";
+      mkAcc (Named "GaussianMixture::dim_linear") Rd (Plain) "sigma_point.cpp:111";
+      mkAcc (Named "GaussianMixture::dim_covariance") Rd (Plain) "sigma_point.cpp:111";
+      mkAcc (Named "GaussianMixture::dim_linear") Rd (Plain) "sigma_point.cpp:114";
+      mkAcc (Named "GaussianMixture::dim_circular") Rd (Plain) "sigma_point.cpp:114";
+      mkAcc (Named "GaussianMixture::dim_noise") Rd (Plain) "sigma_point.cpp:117";
+      mkAcc (Named "GaussianMixture::dim_noise") Rd (Plain) "sigma_point.cpp:118"];
+  mkEntry "(free)::sum_quaternion_rotation_vector" Flt Concurrent [
+      ];
+  mkEntry "(free)::unscented_transform" Flt Concurrent [
+      mkAcc (Named "UTWeight::c") Rd (Plain) "sigma_point.cpp:133";
+      mkAcc (Named "GaussianMixture::components") Rd (Plain) "sigma_point.cpp:149";
+      mkAcc (Named "VectorDescription::circular_type") Rd (Plain) "sigma_point.cpp:149";
+      mkAcc (Named "GaussianMixture::dim_covariance") Rd (Plain) "sigma_point.cpp:152";
+      mkAcc (Named "GaussianMixture::dim_noise") Rd (Plain) "sigma_point.cpp:152";
+      mkAcc (Named "GaussianMixture::components") Rd (Plain) "sigma_point.cpp:152";
+      mkAcc (Named "GaussianMixture::dim_covariance") Rd (Plain) "sigma_point.cpp:155";
+      mkAcc (Named "GaussianMixture::components") Rd (Plain) "sigma_point.cpp:156";
+      mkAcc (Named "GaussianMixture::dim_linear") Rd (Plain) "sigma_point.cpp:162";
+      mkAcc (Named "UTWeight::mean") Rd (Plain) "sigma_point.cpp:162";
+      mkAcc (Named "GaussianMixture::dim_circular") Rd (Plain) "sigma_point.cpp:164";
+      mkAcc (Named "GaussianMixture::use_quaternion") Rd (Plain) "sigma_point.cpp:166";
+      mkAcc (Named "GaussianMixture::dim_circular") Rd (Plain) "sigma_point.cpp:167";
+      mkAcc (Named "GaussianMixture::dim_linear") Rd (Plain) "sigma_point.cpp:168";
+      mkAcc (Named "UTWeight::mean") Rd (Plain) "sigma_point.cpp:168";
+      mkAcc (Named "GaussianMixture::dim_circular") Rd (Plain) "sigma_point.cpp:170";
+      mkAcc (Named "UTWeight::mean") Rd (Plain) "sigma_point.cpp:170";
+      mkAcc (Named "GaussianMixture::dim_covariance") Rd (Plain) "sigma_point.cpp:174";
+      mkAcc (Named "GaussianMixture::dim_linear") Rd (Plain) "sigma_point.cpp:176";
+      mkAcc (Named "GaussianMixture::dim_circular") Rd (Plain) "sigma_point.cpp:177";
+      mkAcc (Named "GaussianMixture::use_quaternion") Rd (Plain) "sigma_point.cpp:179";
+      mkAcc (Named "GaussianMixture::dim_circular") Rd (Plain) "sigma_point.cpp:180";
+      mkAcc (Named "GaussianMixture::dim_linear") Rd (Plain) "sigma_point.cpp:181";
+      mkAcc (Named "GaussianMixture::dim_circular") Rd (Plain) "sigma_point.cpp:183";
+      mkAcc (Named "UTWeight::covariance") Rd (Plain) "sigma_point.cpp:185";
+      mkAcc (Named "GaussianMixture::dim_covariance") Rd (Plain) "sigma_point.cpp:188";
+      mkAcc (Named "GaussianMixture::dim_covariance") Rd (Plain) "sigma_point.cpp:189";
+      mkAcc (Named "GaussianMixture::dim_noise") Rd (Plain) "sigma_point.cpp:189";
+      mkAcc (Named "GaussianMixture::dim_linear") Rd (Plain) "sigma_point.cpp:190";
+      mkAcc (Named "GaussianMixture::dim_circular") Rd (Plain) "sigma_point.cpp:191";
+      mkAcc (Named "GaussianMixture::use_quaternion") Rd (Plain) "sigma_point.cpp:193";
+      mkAcc (Named "GaussianMixture::dim_circular") Rd (Plain) "sigma_point.cpp:194";
+      mkAcc (Named "GaussianMixture::dim_linear") Rd (Plain) "sigma_point.cpp:195";
+      mkAcc (Named "GaussianMixture::dim_circular") Rd (Plain) "sigma_point.cpp:197";
+      mkAcc (Named "GaussianMixture::dim_linear") Rd (Plain) "sigma_point.cpp:197";
+      mkAcc (Named "UTWeight::covariance") Rd (Plain) "sigma_point.cpp:199";
+      mkAcc (Named "global::ignore") Wr (Plain) "sigma_point.cpp:223";
+      mkAcc (Named "global::ignore") Wr (Plain) "sigma_point.cpp:247";
+      mkAcc (Named "GaussianMixture::components") Rd (Plain) "sigma_point.cpp:251";
+      mkAcc (Named "global::ignore") Wr (Plain) "sigma_point.cpp:313";
+      mkAcc (Named "GaussianMixture::components") Rd (Plain) "sigma_point.cpp:314"];
   mkEntry "AdditiveStateModel::motion" Flt Concurrent [
       ];
   mkEntry "BootstrapCorrection::correctStep" Flt Concurrent [
       mkAcc (Named "BootstrapCorrection::valid_likelihood_") Wr (Plain) "BootstrapCorrection.cpp:52";
       mkAcc (Named "BootstrapCorrection::likelihood_") Wr (Plain) "BootstrapCorrection.cpp:52";
+      mkAcc (Named "ParticleSet::state_") Wr (Plain) "BootstrapCorrection.cpp:54";
+      mkAcc (Named "GaussianMixture::components") Wr (Plain) "BootstrapCorrection.cpp:54";
+      mkAcc (Named "GaussianMixture::use_quaternion") Wr (Plain) "BootstrapCorrection.cpp:54";
+      mkAcc (Named "GaussianMixture::dim_circular_component") Wr (Plain) "BootstrapCorrection.cpp:54";
+      mkAcc (Named "GaussianMixture::dim") Wr (Plain) "BootstrapCorrection.cpp:54";
+      mkAcc (Named "GaussianMixture::dim_linear") Wr (Plain) "BootstrapCorrection.cpp:54";
+      mkAcc (Named "GaussianMixture::dim_circular") Wr (Plain) "BootstrapCorrection.cpp:54";
+      mkAcc (Named "GaussianMixture::dim_noise") Wr (Plain) "BootstrapCorrection.cpp:54";
+      mkAcc (Named "GaussianMixture::dim_covariance") Wr (Plain) "BootstrapCorrection.cpp:54";
+      mkAcc (Named "GaussianMixture::mean_") Wr (Plain) "BootstrapCorrection.cpp:54";
+      mkAcc (Named "GaussianMixture::covariance_") Wr (Plain) "BootstrapCorrection.cpp:54";
+      mkAcc (Named "GaussianMixture::weight_") Wr (Plain) "BootstrapCorrection.cpp:54";
       mkAcc (Named "BootstrapCorrection::valid_likelihood_") Rd (Plain) "BootstrapCorrection.cpp:56";
       mkAcc (Named "BootstrapCorrection::likelihood_") Wr (Plain) "BootstrapCorrection.cpp:57"];
   mkEntry "BootstrapCorrection::getLikelihoodModel" Flt Concurrent [
@@ -160,7 +318,7 @@ Definition prefix_table : table := [
   mkEntry "BootstrapCorrection::getMeasurementModel" Flt Concurrent [
       mkAcc (Named "BootstrapCorrection::measurement_model_") Rd (Plain) "BootstrapCorrection.cpp:40"];
   mkEntry "DrawParticles::getStateModel" Flt Concurrent [
-      mkAcc (Named "DrawParticles::state_model_") Rd (Plain) "DrawParticles.cpp:48"];
+      mkAcc (Named "DrawParticles::state_model_") Rd (Plain) "DrawParticles.cpp:50"];
   mkEntry "DrawParticles::predictStep" Flt Concurrent [
       ];
   mkEntry "ExogenousModel::is_skipping" Flt Concurrent [
@@ -191,65 +349,334 @@ Definition prefix_table : table := [
       mkAcc (Named "global::bfl_verif_hook") Rd (Plain) "FilteringAlgorithm.cpp:160"];
   mkEntry "FilteringAlgorithm::step_number" Flt Concurrent [
       mkAcc (Named "FilteringAlgorithm::filtering_step_") Rd (Atomic) "FilteringAlgorithm.cpp:112"];
+  mkEntry "GPFCorrection::(closure) gaussian_random_sample_" Flt Concurrent [
+      mkAcc (Named "GPFCorrection::distribution_") Wr (Plain) "GPFCorrection.cpp:72";
+      mkAcc (Named "GPFCorrection::generator_") Wr (Plain) "GPFCorrection.cpp:72";
+      mkAcc (Named "GPFCorrection::distribution_") Wr (Plain) "GPFCorrection.cpp:41";
+      mkAcc (Named "GPFCorrection::generator_") Wr (Plain) "GPFCorrection.cpp:41";
+      mkAcc (Named "GPFCorrection::distribution_") Wr (Plain) "GPFCorrection.cpp:52";
+      mkAcc (Named "GPFCorrection::generator_") Wr (Plain) "GPFCorrection.cpp:52"];
   mkEntry "GPFCorrection::correctStep" Flt Concurrent [
-      mkAcc (Named "GPFCorrection::gaussian_correction_") Rd (Plain) "GPFCorrection.cpp:101";
-      mkAcc (Named "GPFCorrection::valid_likelihood_") Wr (Plain) "GPFCorrection.cpp:110";
-      mkAcc (Named "GPFCorrection::likelihood_") Wr (Plain) "GPFCorrection.cpp:110";
-      mkAcc (Named "GPFCorrection::valid_likelihood_") Rd (Plain) "GPFCorrection.cpp:112";
-      mkAcc (Named "GPFCorrection::state_model_") Rd (Plain) "GPFCorrection.cpp:120";
-      mkAcc (Named "GPFCorrection::likelihood_") Wr (Plain) "GPFCorrection.cpp:128"];
+      mkAcc (Named "GPFCorrection::gaussian_correction_") Rd (Plain) "GPFCorrection.cpp:103";
+      mkAcc (Named "GaussianMixture::components") Rd (Plain) "GPFCorrection.cpp:106";
+      mkAcc (Named "GPFCorrection::valid_likelihood_") Wr (Plain) "GPFCorrection.cpp:112";
+      mkAcc (Named "GPFCorrection::likelihood_") Wr (Plain) "GPFCorrection.cpp:112";
+      mkAcc (Named "GPFCorrection::valid_likelihood_") Rd (Plain) "GPFCorrection.cpp:114";
+      mkAcc (Named "ParticleSet::state_") Wr (Plain) "GPFCorrection.cpp:116";
+      mkAcc (Named "GaussianMixture::components") Wr (Plain) "GPFCorrection.cpp:116";
+      mkAcc (Named "GaussianMixture::use_quaternion") Wr (Plain) "GPFCorrection.cpp:116";
+      mkAcc (Named "GaussianMixture::dim_circular_component") Wr (Plain) "GPFCorrection.cpp:116";
+      mkAcc (Named "GaussianMixture::dim") Wr (Plain) "GPFCorrection.cpp:116";
+      mkAcc (Named "GaussianMixture::dim_linear") Wr (Plain) "GPFCorrection.cpp:116";
+      mkAcc (Named "GaussianMixture::dim_circular") Wr (Plain) "GPFCorrection.cpp:116";
+      mkAcc (Named "GaussianMixture::dim_noise") Wr (Plain) "GPFCorrection.cpp:116";
+      mkAcc (Named "GaussianMixture::dim_covariance") Wr (Plain) "GPFCorrection.cpp:116";
+      mkAcc (Named "GaussianMixture::mean_") Wr (Plain) "GPFCorrection.cpp:116";
+      mkAcc (Named "GaussianMixture::covariance_") Wr (Plain) "GPFCorrection.cpp:116";
+      mkAcc (Named "GaussianMixture::weight_") Wr (Plain) "GPFCorrection.cpp:116";
+      mkAcc (Named "GPFCorrection::state_model_") Rd (Plain) "GPFCorrection.cpp:122";
+      mkAcc (Named "GaussianMixture::components") Rd (Plain) "GPFCorrection.cpp:128";
+      mkAcc (Named "GPFCorrection::likelihood_") Wr (Plain) "GPFCorrection.cpp:130"];
   mkEntry "GPFCorrection::evaluateProposal" Flt Concurrent [
       ];
   mkEntry "GPFCorrection::getLikelihoodModel" Flt Concurrent [
-      mkAcc (Named "GPFCorrection::likelihood_model_") Rd (Plain) "GPFCorrection.cpp:88"];
+      mkAcc (Named "GPFCorrection::likelihood_model_") Rd (Plain) "GPFCorrection.cpp:90"];
   mkEntry "GPFCorrection::getMeasurementModel" Flt Concurrent [
-      mkAcc (Named "GPFCorrection::gaussian_correction_") Rd (Plain) "GPFCorrection.cpp:82"];
+      mkAcc (Named "GPFCorrection::gaussian_correction_") Rd (Plain) "GPFCorrection.cpp:84"];
   mkEntry "GPFCorrection::sampleFromProposal" Flt Concurrent [
-      mkAcc (Named "GPFCorrection::gaussian_random_sample_") Rd (Plain) "GPFCorrection.cpp:145"];
+      mkAcc (Named "GPFCorrection::gaussian_random_sample_") Rd (Plain) "GPFCorrection.cpp:147"];
   mkEntry "GPFPrediction::predictStep" Flt Concurrent [
       mkAcc (Named "GPFPrediction::gaussian_prediction_") Rd (Plain) "GPFPrediction.cpp:49"];
+  mkEntry "Gaussian::covariance" Flt Concurrent [
+      mkAcc (Named "GaussianMixture::covariance_") Wr (Plain) "Gaussian.cpp:67";
+      mkAcc (Named "GaussianMixture::covariance_") Rd (Plain) "Gaussian.cpp:73";
+      mkAcc (Named "GaussianMixture::covariance_") Wr (Plain) "Gaussian.cpp:80";
+      mkAcc (Named "GaussianMixture::covariance_") Rd (Plain) "Gaussian.cpp:86"];
+  mkEntry "Gaussian::mean" Flt Concurrent [
+      mkAcc (Named "GaussianMixture::mean_") Wr (Plain) "Gaussian.cpp:43";
+      mkAcc (Named "GaussianMixture::mean_") Rd (Plain) "Gaussian.cpp:49";
+      mkAcc (Named "GaussianMixture::mean_") Wr (Plain) "Gaussian.cpp:55";
+      mkAcc (Named "GaussianMixture::mean_") Rd (Plain) "Gaussian.cpp:61"];
+  mkEntry "Gaussian::resize" Flt Concurrent [
+      ];
+  mkEntry "Gaussian::weight" Flt Concurrent [
+      mkAcc (Named "GaussianMixture::weight_") Wr (Plain) "Gaussian.cpp:92";
+      mkAcc (Named "GaussianMixture::weight_") Rd (Plain) "Gaussian.cpp:98"];
   mkEntry "GaussianCorrection::correct" Flt Concurrent [
-      mkAcc (Named "GaussianCorrection::skip_") Rd (Plain) "GaussianCorrection.cpp:19"];
+      mkAcc (Named "GaussianCorrection::skip_") Rd (Plain) "GaussianCorrection.cpp:19";
+      mkAcc (Named "GaussianMixture::components") Wr (Plain) "GaussianCorrection.cpp:22";
+      mkAcc (Named "GaussianMixture::use_quaternion") Wr (Plain) "GaussianCorrection.cpp:22";
+      mkAcc (Named "GaussianMixture::dim_circular_component") Wr (Plain) "GaussianCorrection.cpp:22";
+      mkAcc (Named "GaussianMixture::dim") Wr (Plain) "GaussianCorrection.cpp:22";
+      mkAcc (Named "GaussianMixture::dim_linear") Wr (Plain) "GaussianCorrection.cpp:22";
+      mkAcc (Named "GaussianMixture::dim_circular") Wr (Plain) "GaussianCorrection.cpp:22";
+      mkAcc (Named "GaussianMixture::dim_noise") Wr (Plain) "GaussianCorrection.cpp:22";
+      mkAcc (Named "GaussianMixture::dim_covariance") Wr (Plain) "GaussianCorrection.cpp:22";
+      mkAcc (Named "GaussianMixture::mean_") Wr (Plain) "GaussianCorrection.cpp:22";
+      mkAcc (Named "GaussianMixture::covariance_") Wr (Plain) "GaussianCorrection.cpp:22";
+      mkAcc (Named "GaussianMixture::weight_") Wr (Plain) "GaussianCorrection.cpp:22"];
   mkEntry "GaussianCorrection::freeze_measurements" Flt Concurrent [
+      ];
+  mkEntry "GaussianCorrection::getLikelihood" Flt Concurrent [
       ];
   mkEntry "GaussianFilter::correction" Flt Concurrent [
       mkAcc (Named "GaussianFilter::correction_") Rd (Plain) "GaussianFilter.cpp:52"];
   mkEntry "GaussianFilter::prediction" Flt Concurrent [
       mkAcc (Named "GaussianFilter::prediction_") Rd (Plain) "GaussianFilter.cpp:46"];
+  mkEntry "GaussianLikelihood::likelihood" Flt Concurrent [
+      mkAcc (Named "GaussianLikelihood::scale_factor_") Rd (Plain) "GaussianLikelihood.cpp:72"];
+  mkEntry "GaussianMixture::augmentWithNoise" Flt Concurrent [
+      mkAcc (Named "GaussianMixture::dim_covariance") Rd (Plain) "GaussianMixture.cpp:202";
+      mkAcc (Named "GaussianMixture::dim_noise") Wr (Plain) "GaussianMixture.cpp:205";
+      mkAcc (Named "GaussianMixture::dim") Wr (Plain) "GaussianMixture.cpp:206";
+      mkAcc (Named "GaussianMixture::dim_covariance") Wr (Plain) "GaussianMixture.cpp:207";
+      mkAcc (Named "GaussianMixture::mean_") Wr (Plain) "GaussianMixture.cpp:210";
+      mkAcc (Named "GaussianMixture::dim") Rd (Plain) "GaussianMixture.cpp:210";
+      mkAcc (Named "GaussianMixture::mean_") Wr (Plain) "GaussianMixture.cpp:211";
+      mkAcc (Named "GaussianMixture::components") Rd (Plain) "GaussianMixture.cpp:211";
+      mkAcc (Named "GaussianMixture::covariance_") Wr (Plain) "GaussianMixture.cpp:214";
+      mkAcc (Named "GaussianMixture::dim_covariance") Rd (Plain) "GaussianMixture.cpp:214";
+      mkAcc (Named "GaussianMixture::components") Rd (Plain) "GaussianMixture.cpp:214";
+      mkAcc (Named "GaussianMixture::components") Rd (Plain) "GaussianMixture.cpp:222";
+      mkAcc (Named "GaussianMixture::components") Rd (Plain) "GaussianMixture.cpp:224";
+      mkAcc (Named "GaussianMixture::covariance_") Wr (Plain) "GaussianMixture.cpp:226";
+      mkAcc (Named "GaussianMixture::dim_covariance") Rd (Plain) "GaussianMixture.cpp:226";
+      mkAcc (Named "GaussianMixture::covariance_") Wr (Plain) "GaussianMixture.cpp:227";
+      mkAcc (Named "GaussianMixture::components") Rd (Plain) "GaussianMixture.cpp:238";
+      mkAcc (Named "GaussianMixture::covariance_") Wr (Plain) "GaussianMixture.cpp:241";
+      mkAcc (Named "GaussianMixture::dim_covariance") Rd (Plain) "GaussianMixture.cpp:241";
+      mkAcc (Named "GaussianMixture::covariance_") Wr (Plain) "GaussianMixture.cpp:244";
+      mkAcc (Named "GaussianMixture::dim_covariance") Rd (Plain) "GaussianMixture.cpp:244"];
+  mkEntry "GaussianMixture::covariance" Flt Concurrent [
+      mkAcc (Named "GaussianMixture::covariance_") Wr (Plain) "GaussianMixture.cpp:133";
+      mkAcc (Named "GaussianMixture::covariance_") Wr (Plain) "GaussianMixture.cpp:139";
+      mkAcc (Named "GaussianMixture::dim_covariance") Rd (Plain) "GaussianMixture.cpp:139";
+      mkAcc (Named "GaussianMixture::covariance_") Wr (Plain) "GaussianMixture.cpp:145";
+      mkAcc (Named "GaussianMixture::dim_covariance") Rd (Plain) "GaussianMixture.cpp:145";
+      mkAcc (Named "GaussianMixture::covariance_") Rd (Plain) "GaussianMixture.cpp:151";
+      mkAcc (Named "GaussianMixture::covariance_") Rd (Plain) "GaussianMixture.cpp:157";
+      mkAcc (Named "GaussianMixture::dim_covariance") Rd (Plain) "GaussianMixture.cpp:157";
+      mkAcc (Named "GaussianMixture::covariance_") Rd (Plain) "GaussianMixture.cpp:163";
+      mkAcc (Named "GaussianMixture::dim_covariance") Rd (Plain) "GaussianMixture.cpp:163"];
+  mkEntry "GaussianMixture::mean" Flt Concurrent [
+      mkAcc (Named "GaussianMixture::mean_") Wr (Plain) "GaussianMixture.cpp:97";
+      mkAcc (Named "GaussianMixture::mean_") Wr (Plain) "GaussianMixture.cpp:103";
+      mkAcc (Named "GaussianMixture::mean_") Wr (Plain) "GaussianMixture.cpp:109";
+      mkAcc (Named "GaussianMixture::mean_") Rd (Plain) "GaussianMixture.cpp:115";
+      mkAcc (Named "GaussianMixture::mean_") Rd (Plain) "GaussianMixture.cpp:121";
+      mkAcc (Named "GaussianMixture::mean_") Rd (Plain) "GaussianMixture.cpp:127"];
+  mkEntry "GaussianMixture::resize" Flt Concurrent [
+      mkAcc (Named "GaussianMixture::dim_circular_component") Rd (Plain) "GaussianMixture.cpp:66";
+      mkAcc (Named "GaussianMixture::use_quaternion") Rd (Plain) "GaussianMixture.cpp:67";
+      mkAcc (Named "GaussianMixture::dim_circular_component") Rd (Plain) "GaussianMixture.cpp:67";
+      mkAcc (Named "GaussianMixture::dim_linear") Rd (Plain) "GaussianMixture.cpp:69";
+      mkAcc (Named "GaussianMixture::dim_circular") Rd (Plain) "GaussianMixture.cpp:69";
+      mkAcc (Named "GaussianMixture::components") Rd (Plain) "GaussianMixture.cpp:69";
+      mkAcc (Named "GaussianMixture::dim") Rd (Plain) "GaussianMixture.cpp:71";
+      mkAcc (Named "GaussianMixture::dim_covariance") Rd (Plain) "GaussianMixture.cpp:71";
+      mkAcc (Named "GaussianMixture::components") Rd (Plain) "GaussianMixture.cpp:71";
+      mkAcc (Named "GaussianMixture::mean_") Wr (Plain) "GaussianMixture.cpp:73";
+      mkAcc (Named "GaussianMixture::covariance_") Wr (Plain) "GaussianMixture.cpp:74";
+      mkAcc (Named "GaussianMixture::dim_covariance") Rd (Plain) "GaussianMixture.cpp:74";
+      mkAcc (Named "GaussianMixture::weight_") Wr (Plain) "GaussianMixture.cpp:75";
+      mkAcc (Named "GaussianMixture::mean_") Wr (Plain) "GaussianMixture.cpp:81";
+      mkAcc (Named "GaussianMixture::covariance_") Wr (Plain) "GaussianMixture.cpp:82";
+      mkAcc (Named "GaussianMixture::weight_") Wr (Plain) "GaussianMixture.cpp:83";
+      mkAcc (Named "GaussianMixture::components") Wr (Plain) "GaussianMixture.cpp:86";
+      mkAcc (Named "GaussianMixture::dim") Wr (Plain) "GaussianMixture.cpp:87";
+      mkAcc (Named "GaussianMixture::dim_covariance") Wr (Plain) "GaussianMixture.cpp:88";
+      mkAcc (Named "GaussianMixture::dim_linear") Wr (Plain) "GaussianMixture.cpp:89";
+      mkAcc (Named "GaussianMixture::dim_circular") Wr (Plain) "GaussianMixture.cpp:90";
+      mkAcc (Named "GaussianMixture::dim_noise") Wr (Plain) "GaussianMixture.cpp:91"];
+  mkEntry "GaussianMixture::weight" Flt Concurrent [
+      mkAcc (Named "GaussianMixture::weight_") Wr (Plain) "GaussianMixture.cpp:169";
+      mkAcc (Named "GaussianMixture::weight_") Wr (Plain) "GaussianMixture.cpp:175";
+      mkAcc (Named "GaussianMixture::weight_") Rd (Plain) "GaussianMixture.cpp:181";
+      mkAcc (Named "GaussianMixture::weight_") Rd (Plain) "GaussianMixture.cpp:187"];
   mkEntry "GaussianPrediction::predict" Flt Concurrent [
-      mkAcc (Named "GaussianPrediction::skip_") Rd (Plain) "GaussianPrediction.cpp:20"];
+      mkAcc (Named "GaussianPrediction::skip_") Rd (Plain) "GaussianPrediction.cpp:20";
+      mkAcc (Named "GaussianMixture::components") Wr (Plain) "GaussianPrediction.cpp:23";
+      mkAcc (Named "GaussianMixture::use_quaternion") Wr (Plain) "GaussianPrediction.cpp:23";
+      mkAcc (Named "GaussianMixture::dim_circular_component") Wr (Plain) "GaussianPrediction.cpp:23";
+      mkAcc (Named "GaussianMixture::dim") Wr (Plain) "GaussianPrediction.cpp:23";
+      mkAcc (Named "GaussianMixture::dim_linear") Wr (Plain) "GaussianPrediction.cpp:23";
+      mkAcc (Named "GaussianMixture::dim_circular") Wr (Plain) "GaussianPrediction.cpp:23";
+      mkAcc (Named "GaussianMixture::dim_noise") Wr (Plain) "GaussianPrediction.cpp:23";
+      mkAcc (Named "GaussianMixture::dim_covariance") Wr (Plain) "GaussianPrediction.cpp:23";
+      mkAcc (Named "GaussianMixture::mean_") Wr (Plain) "GaussianPrediction.cpp:23";
+      mkAcc (Named "GaussianMixture::covariance_") Wr (Plain) "GaussianPrediction.cpp:23";
+      mkAcc (Named "GaussianMixture::weight_") Wr (Plain) "GaussianPrediction.cpp:23"];
+  mkEntry "ImplData::(closure) gauss_rnd_sample_" Flt Concurrent [
+      mkAcc (Named "ImplData::distribution_") Wr (Plain) "WhiteNoiseAcceleration.cpp:34";
+      mkAcc (Named "ImplData::generator_") Wr (Plain) "WhiteNoiseAcceleration.cpp:34"];
+  mkEntry "InitSurveillanceAreaGrid::initialize" Flt Concurrent [
+      mkAcc (Named "InitSurveillanceAreaGrid::num_particle_x_") Rd (Plain) "InitSurveillanceAreaGrid.cpp:47";
+      mkAcc (Named "InitSurveillanceAreaGrid::num_particle_y_") Rd (Plain) "InitSurveillanceAreaGrid.cpp:47";
+      mkAcc (Named "InitSurveillanceAreaGrid::surv_x_sup_") Rd (Plain) "InitSurveillanceAreaGrid.cpp:50";
+      mkAcc (Named "InitSurveillanceAreaGrid::surv_x_inf_") Rd (Plain) "InitSurveillanceAreaGrid.cpp:50";
+      mkAcc (Named "InitSurveillanceAreaGrid::surv_y_sup_") Rd (Plain) "InitSurveillanceAreaGrid.cpp:51";
+      mkAcc (Named "InitSurveillanceAreaGrid::surv_y_inf_") Rd (Plain) "InitSurveillanceAreaGrid.cpp:51";
+      mkAcc (Named "InitSurveillanceAreaGrid::num_particle_x_") Rd (Plain) "InitSurveillanceAreaGrid.cpp:53";
+      mkAcc (Named "InitSurveillanceAreaGrid::num_particle_y_") Rd (Plain) "InitSurveillanceAreaGrid.cpp:54";
+      mkAcc (Named "InitSurveillanceAreaGrid::num_particle_y_") Rd (Plain) "InitSurveillanceAreaGrid.cpp:55";
+      mkAcc (Named "InitSurveillanceAreaGrid::num_particle_x_") Rd (Plain) "InitSurveillanceAreaGrid.cpp:55";
+      mkAcc (Named "InitSurveillanceAreaGrid::surv_x_inf_") Rd (Plain) "InitSurveillanceAreaGrid.cpp:55";
+      mkAcc (Named "InitSurveillanceAreaGrid::num_particle_y_") Rd (Plain) "InitSurveillanceAreaGrid.cpp:57";
+      mkAcc (Named "InitSurveillanceAreaGrid::surv_y_inf_") Rd (Plain) "InitSurveillanceAreaGrid.cpp:57"];
   mkEntry "KFCorrection::correctStep" Flt Concurrent [
       mkAcc (Named "KFCorrection::innovations_") Wr (Plain) "KFCorrection.cpp:49";
       mkAcc (Named "KFCorrection::measurement_model_") Rd (Plain) "KFCorrection.cpp:54";
+      mkAcc (Named "GaussianMixture::components") Wr (Plain) "KFCorrection.cpp:58";
+      mkAcc (Named "GaussianMixture::use_quaternion") Wr (Plain) "KFCorrection.cpp:58";
+      mkAcc (Named "GaussianMixture::dim_circular_component") Wr (Plain) "KFCorrection.cpp:58";
+      mkAcc (Named "GaussianMixture::dim") Wr (Plain) "KFCorrection.cpp:58";
+      mkAcc (Named "GaussianMixture::dim_linear") Wr (Plain) "KFCorrection.cpp:58";
+      mkAcc (Named "GaussianMixture::dim_circular") Wr (Plain) "KFCorrection.cpp:58";
+      mkAcc (Named "GaussianMixture::dim_noise") Wr (Plain) "KFCorrection.cpp:58";
+      mkAcc (Named "GaussianMixture::dim_covariance") Wr (Plain) "KFCorrection.cpp:58";
+      mkAcc (Named "GaussianMixture::mean_") Wr (Plain) "KFCorrection.cpp:58";
+      mkAcc (Named "GaussianMixture::covariance_") Wr (Plain) "KFCorrection.cpp:58";
+      mkAcc (Named "GaussianMixture::weight_") Wr (Plain) "KFCorrection.cpp:58";
       mkAcc (Named "KFCorrection::measurement_model_") Rd (Plain) "KFCorrection.cpp:65";
+      mkAcc (Named "GaussianMixture::components") Wr (Plain) "KFCorrection.cpp:69";
+      mkAcc (Named "GaussianMixture::use_quaternion") Wr (Plain) "KFCorrection.cpp:69";
+      mkAcc (Named "GaussianMixture::dim_circular_component") Wr (Plain) "KFCorrection.cpp:69";
+      mkAcc (Named "GaussianMixture::dim") Wr (Plain) "KFCorrection.cpp:69";
+      mkAcc (Named "GaussianMixture::dim_linear") Wr (Plain) "KFCorrection.cpp:69";
+      mkAcc (Named "GaussianMixture::dim_circular") Wr (Plain) "KFCorrection.cpp:69";
+      mkAcc (Named "GaussianMixture::dim_noise") Wr (Plain) "KFCorrection.cpp:69";
+      mkAcc (Named "GaussianMixture::dim_covariance") Wr (Plain) "KFCorrection.cpp:69";
+      mkAcc (Named "GaussianMixture::mean_") Wr (Plain) "KFCorrection.cpp:69";
+      mkAcc (Named "GaussianMixture::covariance_") Wr (Plain) "KFCorrection.cpp:69";
+      mkAcc (Named "GaussianMixture::weight_") Wr (Plain) "KFCorrection.cpp:69";
       mkAcc (Named "KFCorrection::measurement_model_") Rd (Plain) "KFCorrection.cpp:76";
+      mkAcc (Named "GaussianMixture::components") Wr (Plain) "KFCorrection.cpp:80";
+      mkAcc (Named "GaussianMixture::use_quaternion") Wr (Plain) "KFCorrection.cpp:80";
+      mkAcc (Named "GaussianMixture::dim_circular_component") Wr (Plain) "KFCorrection.cpp:80";
+      mkAcc (Named "GaussianMixture::dim") Wr (Plain) "KFCorrection.cpp:80";
+      mkAcc (Named "GaussianMixture::dim_linear") Wr (Plain) "KFCorrection.cpp:80";
+      mkAcc (Named "GaussianMixture::dim_circular") Wr (Plain) "KFCorrection.cpp:80";
+      mkAcc (Named "GaussianMixture::dim_noise") Wr (Plain) "KFCorrection.cpp:80";
+      mkAcc (Named "GaussianMixture::dim_covariance") Wr (Plain) "KFCorrection.cpp:80";
+      mkAcc (Named "GaussianMixture::mean_") Wr (Plain) "KFCorrection.cpp:80";
+      mkAcc (Named "GaussianMixture::covariance_") Wr (Plain) "KFCorrection.cpp:80";
+      mkAcc (Named "GaussianMixture::weight_") Wr (Plain) "KFCorrection.cpp:80";
       mkAcc (Named "KFCorrection::measurement_model_") Rd (Plain) "KFCorrection.cpp:86";
+      mkAcc (Named "GaussianMixture::components") Wr (Plain) "KFCorrection.cpp:90";
+      mkAcc (Named "GaussianMixture::use_quaternion") Wr (Plain) "KFCorrection.cpp:90";
+      mkAcc (Named "GaussianMixture::dim_circular_component") Wr (Plain) "KFCorrection.cpp:90";
+      mkAcc (Named "GaussianMixture::dim") Wr (Plain) "KFCorrection.cpp:90";
+      mkAcc (Named "GaussianMixture::dim_linear") Wr (Plain) "KFCorrection.cpp:90";
+      mkAcc (Named "GaussianMixture::dim_circular") Wr (Plain) "KFCorrection.cpp:90";
+      mkAcc (Named "GaussianMixture::dim_noise") Wr (Plain) "KFCorrection.cpp:90";
+      mkAcc (Named "GaussianMixture::dim_covariance") Wr (Plain) "KFCorrection.cpp:90";
+      mkAcc (Named "GaussianMixture::mean_") Wr (Plain) "KFCorrection.cpp:90";
+      mkAcc (Named "GaussianMixture::covariance_") Wr (Plain) "KFCorrection.cpp:90";
+      mkAcc (Named "GaussianMixture::weight_") Wr (Plain) "KFCorrection.cpp:90";
       mkAcc (Named "KFCorrection::measurement_model_") Rd (Plain) "KFCorrection.cpp:94";
       mkAcc (Named "KFCorrection::innovations_") Wr (Plain) "KFCorrection.cpp:97";
       mkAcc (Named "KFCorrection::meas_covariances_") Wr (Plain) "KFCorrection.cpp:101";
+      mkAcc (Named "GaussianMixture::components") Rd (Plain) "KFCorrection.cpp:101";
+      mkAcc (Named "GaussianMixture::components") Rd (Plain) "KFCorrection.cpp:104";
       mkAcc (Named "KFCorrection::meas_covariances_") Wr (Plain) "KFCorrection.cpp:108";
       mkAcc (Named "KFCorrection::meas_covariances_") Wr (Plain) "KFCorrection.cpp:112";
       mkAcc (Named "KFCorrection::innovations_") Wr (Plain) "KFCorrection.cpp:116";
       mkAcc (Named "KFCorrection::meas_covariances_") Wr (Plain) "KFCorrection.cpp:120"];
+  mkEntry "KFCorrection::getLikelihood" Flt Concurrent [
+      mkAcc (Named "KFCorrection::innovations_") Rd (Plain) "KFCorrection.cpp:33";
+      mkAcc (Named "KFCorrection::innovations_") Rd (Plain) "KFCorrection.cpp:36";
+      mkAcc (Named "KFCorrection::innovations_") Wr (Plain) "KFCorrection.cpp:39";
+      mkAcc (Named "KFCorrection::innovations_") Rd (Plain) "KFCorrection.cpp:39";
+      mkAcc (Named "KFCorrection::meas_covariances_") Wr (Plain) "KFCorrection.cpp:39"];
   mkEntry "KFCorrection::getMeasurementModel" Flt Concurrent [
       mkAcc (Named "KFCorrection::measurement_model_") Rd (Plain) "KFCorrection.cpp:27"];
   mkEntry "KFPrediction::getStateModel" Flt Concurrent [
       mkAcc (Named "KFPrediction::state_model_") Rd (Plain) "KFPrediction.cpp:40"];
   mkEntry "KFPrediction::predictStep" Flt Concurrent [
+      mkAcc (Named "GaussianMixture::components") Wr (Plain) "KFPrediction.cpp:48";
+      mkAcc (Named "GaussianMixture::use_quaternion") Wr (Plain) "KFPrediction.cpp:48";
+      mkAcc (Named "GaussianMixture::dim_circular_component") Wr (Plain) "KFPrediction.cpp:48";
+      mkAcc (Named "GaussianMixture::dim") Wr (Plain) "KFPrediction.cpp:48";
+      mkAcc (Named "GaussianMixture::dim_linear") Wr (Plain) "KFPrediction.cpp:48";
+      mkAcc (Named "GaussianMixture::dim_circular") Wr (Plain) "KFPrediction.cpp:48";
+      mkAcc (Named "GaussianMixture::dim_noise") Wr (Plain) "KFPrediction.cpp:48";
+      mkAcc (Named "GaussianMixture::dim_covariance") Wr (Plain) "KFPrediction.cpp:48";
+      mkAcc (Named "GaussianMixture::mean_") Wr (Plain) "KFPrediction.cpp:48";
+      mkAcc (Named "GaussianMixture::covariance_") Wr (Plain) "KFPrediction.cpp:48";
+      mkAcc (Named "GaussianMixture::weight_") Wr (Plain) "KFPrediction.cpp:48";
       mkAcc (Named "KFPrediction::state_model_") Rd (Plain) "KFPrediction.cpp:59";
+      mkAcc (Named "GaussianMixture::components") Rd (Plain) "KFPrediction.cpp:61";
       mkAcc (Named "KFPrediction::state_model_") Rd (Plain) "KFPrediction.cpp:62"];
+  mkEntry "LTIMeasurementModel::getMeasurementMatrix" Flt Concurrent [
+      mkAcc (Named "LTIMeasurementModel::H_") Wr (Plain) "LTIMeasurementModel.cpp:40"];
+  mkEntry "LTIMeasurementModel::getNoiseCovarianceMatrix" Flt Concurrent [
+      mkAcc (Named "LTIMeasurementModel::R_") Wr (Plain) "LTIMeasurementModel.cpp:34"];
   mkEntry "LTIStateModel::getNoiseCovarianceMatrix" Flt Concurrent [
       mkAcc (Named "LTIStateModel::Q_") Rd (Plain) "LTIStateModel.cpp:58"];
   mkEntry "LTIStateModel::getStateTransitionMatrix" Flt Concurrent [
       mkAcc (Named "LTIStateModel::F_") Rd (Plain) "LTIStateModel.cpp:64"];
+  mkEntry "LinearMeasurementModel::innovation" Flt Concurrent [
+      ];
+  mkEntry "LinearMeasurementModel::predictedMeasure" Flt Concurrent [
+      ];
+  mkEntry "LinearModel::(closure) gauss_rnd_sample_" Flt Concurrent [
+      mkAcc (Named "LinearModel::distribution_") Wr (Plain) "LinearModel.cpp:29";
+      mkAcc (Named "LinearModel::generator_") Wr (Plain) "LinearModel.cpp:29"];
+  mkEntry "LinearModel::getMeasurementMatrix" Flt Concurrent [
+      mkAcc (Named "LTIMeasurementModel::H_") Wr (Plain) "LinearModel.cpp:71"];
+  mkEntry "LinearModel::getNoiseCovarianceMatrix" Flt Concurrent [
+      mkAcc (Named "LTIMeasurementModel::R_") Wr (Plain) "LinearModel.cpp:65"];
+  mkEntry "LinearModel::getNoiseSample" Flt Concurrent [
+      mkAcc (Named "LinearModel::sqrt_R_") Rd (Plain) "LinearModel.cpp:53";
+      mkAcc (Named "LinearModel::gauss_rnd_sample_") Wr (Plain) "LinearModel.cpp:55";
+      mkAcc (Named "LinearModel::sqrt_R_") Rd (Plain) "LinearModel.cpp:57"];
   mkEntry "LinearStateModel::propagate" Flt Concurrent [
       ];
+  mkEntry "Logger::log" Flt Concurrent [
+      ];
+  mkEntry "Logger::logger" Flt Concurrent [
+      mkAcc (Named "Logger::log_enabled_") Rd (Plain) "Logger.h:44";
+      mkAcc (Named "Logger::log_enabled_") Rd (Plain) "Logger.h:37";
+      mkAcc (Named "Logger::log_files_") Wr (Plain) "Logger.h:38"];
+  mkEntry "Logger::logger_helper" Flt Concurrent [
+      mkAcc (Named "Logger::log_files_") Wr (Plain) "Logger.h:83";
+      mkAcc (Named "Logger::log_files_") Wr (Plain) "Logger.h:89"];
+  mkEntry "MeasurementModel::getInputDescription" Flt Concurrent [
+      ];
+  mkEntry "MeasurementModel::getMeasurementDescription" Flt Concurrent [
+      ];
+  mkEntry "MeasurementModel::getNoiseCovarianceMatrix" Flt Concurrent [
+      ];
   mkEntry "PFCorrection::correct" Flt Concurrent [
-      mkAcc (Named "PFCorrection::skip_") Rd (Plain) "PFCorrection.cpp:17"];
+      mkAcc (Named "PFCorrection::skip_") Rd (Plain) "PFCorrection.cpp:17";
+      mkAcc (Named "ParticleSet::state_") Wr (Plain) "PFCorrection.cpp:20";
+      mkAcc (Named "GaussianMixture::components") Wr (Plain) "PFCorrection.cpp:20";
+      mkAcc (Named "GaussianMixture::use_quaternion") Wr (Plain) "PFCorrection.cpp:20";
+      mkAcc (Named "GaussianMixture::dim_circular_component") Wr (Plain) "PFCorrection.cpp:20";
+      mkAcc (Named "GaussianMixture::dim") Wr (Plain) "PFCorrection.cpp:20";
+      mkAcc (Named "GaussianMixture::dim_linear") Wr (Plain) "PFCorrection.cpp:20";
+      mkAcc (Named "GaussianMixture::dim_circular") Wr (Plain) "PFCorrection.cpp:20";
+      mkAcc (Named "GaussianMixture::dim_noise") Wr (Plain) "PFCorrection.cpp:20";
+      mkAcc (Named "GaussianMixture::dim_covariance") Wr (Plain) "PFCorrection.cpp:20";
+      mkAcc (Named "GaussianMixture::mean_") Wr (Plain) "PFCorrection.cpp:20";
+      mkAcc (Named "GaussianMixture::covariance_") Wr (Plain) "PFCorrection.cpp:20";
+      mkAcc (Named "GaussianMixture::weight_") Wr (Plain) "PFCorrection.cpp:20"];
   mkEntry "PFCorrection::freeze_measurements" Flt Concurrent [
       ];
   mkEntry "PFPrediction::predict" Flt Concurrent [
-      mkAcc (Named "PFPrediction::skip_") Rd (Plain) "PFPrediction.cpp:19"];
+      mkAcc (Named "PFPrediction::skip_") Rd (Plain) "PFPrediction.cpp:19";
+      mkAcc (Named "ParticleSet::state_") Wr (Plain) "PFPrediction.cpp:22";
+      mkAcc (Named "GaussianMixture::components") Wr (Plain) "PFPrediction.cpp:22";
+      mkAcc (Named "GaussianMixture::use_quaternion") Wr (Plain) "PFPrediction.cpp:22";
+      mkAcc (Named "GaussianMixture::dim_circular_component") Wr (Plain) "PFPrediction.cpp:22";
+      mkAcc (Named "GaussianMixture::dim") Wr (Plain) "PFPrediction.cpp:22";
+      mkAcc (Named "GaussianMixture::dim_linear") Wr (Plain) "PFPrediction.cpp:22";
+      mkAcc (Named "GaussianMixture::dim_circular") Wr (Plain) "PFPrediction.cpp:22";
+      mkAcc (Named "GaussianMixture::dim_noise") Wr (Plain) "PFPrediction.cpp:22";
+      mkAcc (Named "GaussianMixture::dim_covariance") Wr (Plain) "PFPrediction.cpp:22";
+      mkAcc (Named "GaussianMixture::mean_") Wr (Plain) "PFPrediction.cpp:22";
+      mkAcc (Named "GaussianMixture::covariance_") Wr (Plain) "PFPrediction.cpp:22";
+      mkAcc (Named "GaussianMixture::weight_") Wr (Plain) "PFPrediction.cpp:22"];
   mkEntry "ParticleFilter::correction" Flt Concurrent [
       mkAcc (Named "ParticleFilter::correction_") Rd (Plain) "ParticleFilter.cpp:67"];
   mkEntry "ParticleFilter::initialization" Flt Concurrent [
@@ -258,20 +685,97 @@ Definition prefix_table : table := [
       mkAcc (Named "ParticleFilter::prediction_") Rd (Plain) "ParticleFilter.cpp:61"];
   mkEntry "ParticleFilter::resampling" Flt Concurrent [
       mkAcc (Named "ParticleFilter::resampling_") Rd (Plain) "ParticleFilter.cpp:73"];
+  mkEntry "ParticleSet::augmentWithNoise" Flt Concurrent [
+      mkAcc (Named "ParticleSet::state_") Wr (Plain) "ParticleSet.cpp:61";
+      mkAcc (Named "GaussianMixture::dim") Rd (Plain) "ParticleSet.cpp:61";
+      mkAcc (Named "ParticleSet::state_") Wr (Plain) "ParticleSet.cpp:62";
+      mkAcc (Named "GaussianMixture::components") Rd (Plain) "ParticleSet.cpp:62"];
+  mkEntry "ParticleSet::resize" Flt Concurrent [
+      mkAcc (Named "GaussianMixture::dim_circular_component") Rd (Plain) "ParticleSet.cpp:37";
+      mkAcc (Named "GaussianMixture::dim_linear") Rd (Plain) "ParticleSet.cpp:39";
+      mkAcc (Named "GaussianMixture::dim_circular") Rd (Plain) "ParticleSet.cpp:39";
+      mkAcc (Named "GaussianMixture::components") Rd (Plain) "ParticleSet.cpp:39";
+      mkAcc (Named "GaussianMixture::dim") Rd (Plain) "ParticleSet.cpp:41";
+      mkAcc (Named "GaussianMixture::components") Rd (Plain) "ParticleSet.cpp:41";
+      mkAcc (Named "ParticleSet::state_") Wr (Plain) "ParticleSet.cpp:42";
+      mkAcc (Named "ParticleSet::state_") Wr (Plain) "ParticleSet.cpp:47"];
+  mkEntry "ParticleSet::state" Flt Concurrent [
+      mkAcc (Named "ParticleSet::state_") Wr (Plain) "ParticleSet.cpp:102";
+      mkAcc (Named "ParticleSet::state_") Wr (Plain) "ParticleSet.cpp:108";
+      mkAcc (Named "ParticleSet::state_") Wr (Plain) "ParticleSet.cpp:114";
+      mkAcc (Named "ParticleSet::state_") Rd (Plain) "ParticleSet.cpp:120";
+      mkAcc (Named "ParticleSet::state_") Rd (Plain) "ParticleSet.cpp:126";
+      mkAcc (Named "ParticleSet::state_") Rd (Plain) "ParticleSet.cpp:132"];
+  mkEntry "Resampling::neff" Flt Concurrent [
+      ];
+  mkEntry "Resampling::resample" Flt Concurrent [
+      mkAcc (Named "Resampling::generator_") Wr (Plain) "Resampling.cpp:78"];
+  mkEntry "ResamplingWithPrior::resample" Flt Concurrent [
+      mkAcc (Named "ResamplingWithPrior::prior_ratio_") Rd (Plain) "ResamplingWithPrior.cpp:66";
+      mkAcc (Named "GaussianMixture::dim_linear") Rd (Plain) "ResamplingWithPrior.cpp:70";
+      mkAcc (Named "GaussianMixture::dim_circular") Rd (Plain) "ResamplingWithPrior.cpp:70";
+      mkAcc (Named "GaussianMixture::use_quaternion") Rd (Plain) "ResamplingWithPrior.cpp:70";
+      mkAcc (Named "GaussianMixture::dim_linear") Rd (Plain) "ResamplingWithPrior.cpp:71";
+      mkAcc (Named "GaussianMixture::dim_circular") Rd (Plain) "ResamplingWithPrior.cpp:71";
+      mkAcc (Named "GaussianMixture::use_quaternion") Rd (Plain) "ResamplingWithPrior.cpp:71";
+      mkAcc (Named "GaussianMixture::dim_linear") Rd (Plain) "ResamplingWithPrior.cpp:75";
+      mkAcc (Named "GaussianMixture::dim_circular") Rd (Plain) "ResamplingWithPrior.cpp:75";
+      mkAcc (Named "GaussianMixture::use_quaternion") Rd (Plain) "ResamplingWithPrior.cpp:75";
+      mkAcc (Named "ResamplingWithPrior::init_model_") Rd (Plain) "ResamplingWithPrior.cpp:100";
+      mkAcc (Named "ParticleSet::state_") Wr (Plain) "ResamplingWithPrior.cpp:103";
+      mkAcc (Named "GaussianMixture::components") Wr (Plain) "ResamplingWithPrior.cpp:103";
+      mkAcc (Named "GaussianMixture::use_quaternion") Wr (Plain) "ResamplingWithPrior.cpp:103";
+      mkAcc (Named "GaussianMixture::dim_circular_component") Wr (Plain) "ResamplingWithPrior.cpp:103";
+      mkAcc (Named "GaussianMixture::dim") Wr (Plain) "ResamplingWithPrior.cpp:103";
+      mkAcc (Named "GaussianMixture::dim_linear") Wr (Plain) "ResamplingWithPrior.cpp:103";
+      mkAcc (Named "GaussianMixture::dim_circular") Wr (Plain) "ResamplingWithPrior.cpp:103";
+      mkAcc (Named "GaussianMixture::dim_noise") Wr (Plain) "ResamplingWithPrior.cpp:103";
+      mkAcc (Named "GaussianMixture::dim_covariance") Wr (Plain) "ResamplingWithPrior.cpp:103";
+      mkAcc (Named "GaussianMixture::mean_") Wr (Plain) "ResamplingWithPrior.cpp:103";
+      mkAcc (Named "GaussianMixture::covariance_") Wr (Plain) "ResamplingWithPrior.cpp:103";
+      mkAcc (Named "GaussianMixture::weight_") Wr (Plain) "ResamplingWithPrior.cpp:103"];
+  mkEntry "ResamplingWithPrior::sort_indices" Flt Concurrent [
+      ];
   mkEntry "SIS::filtering_step" Flt Concurrent [
       mkAcc (Named "SIS::cor_particle_") Rd (Plain) "SIS.cpp:61";
       mkAcc (Named "SIS::pred_particle_") Wr (Plain) "SIS.cpp:61";
       mkAcc (Named "SIS::pred_particle_") Rd (Plain) "SIS.cpp:65";
       mkAcc (Named "SIS::cor_particle_") Wr (Plain) "SIS.cpp:65";
       mkAcc (Named "SIS::cor_particle_") Wr (Plain) "SIS.cpp:68";
+      mkAcc (Named "ParticleSet::state_") Wr (Plain) "SIS.cpp:71";
+      mkAcc (Named "GaussianMixture::components") Wr (Plain) "SIS.cpp:71";
+      mkAcc (Named "GaussianMixture::use_quaternion") Wr (Plain) "SIS.cpp:71";
+      mkAcc (Named "GaussianMixture::dim_circular_component") Wr (Plain) "SIS.cpp:71";
+      mkAcc (Named "GaussianMixture::dim") Wr (Plain) "SIS.cpp:71";
+      mkAcc (Named "GaussianMixture::dim_linear") Wr (Plain) "SIS.cpp:71";
+      mkAcc (Named "GaussianMixture::dim_circular") Wr (Plain) "SIS.cpp:71";
+      mkAcc (Named "GaussianMixture::dim_noise") Wr (Plain) "SIS.cpp:71";
+      mkAcc (Named "GaussianMixture::dim_covariance") Wr (Plain) "SIS.cpp:71";
+      mkAcc (Named "GaussianMixture::mean_") Wr (Plain) "SIS.cpp:71";
+      mkAcc (Named "GaussianMixture::covariance_") Wr (Plain) "SIS.cpp:71";
+      mkAcc (Named "GaussianMixture::weight_") Wr (Plain) "SIS.cpp:71";
       mkAcc (Named "SIS::cor_particle_") Wr (Plain) "SIS.cpp:71";
       mkAcc (Named "SIS::pred_particle_") Rd (Plain) "SIS.cpp:71";
       mkAcc (Named "SIS::cor_particle_") Wr (Plain) "SIS.cpp:75";
       mkAcc (Named "SIS::num_particle_") Rd (Plain) "SIS.cpp:75";
       mkAcc (Named "SIS::num_particle_") Rd (Plain) "SIS.cpp:77";
+      mkAcc (Named "GaussianMixture::dim_linear") Rd (Plain) "SIS.cpp:77";
       mkAcc (Named "SIS::cor_particle_") Rd (Plain) "SIS.cpp:77";
+      mkAcc (Named "GaussianMixture::dim_circular") Rd (Plain) "SIS.cpp:77";
       mkAcc (Named "SIS::num_particle_") Rd (Plain) "SIS.cpp:78";
       mkAcc (Named "SIS::cor_particle_") Rd (Plain) "SIS.cpp:80";
+      mkAcc (Named "ParticleSet::state_") Wr (Plain) "SIS.cpp:82";
+      mkAcc (Named "GaussianMixture::components") Wr (Plain) "SIS.cpp:82";
+      mkAcc (Named "GaussianMixture::use_quaternion") Wr (Plain) "SIS.cpp:82";
+      mkAcc (Named "GaussianMixture::dim_circular_component") Wr (Plain) "SIS.cpp:82";
+      mkAcc (Named "GaussianMixture::dim") Wr (Plain) "SIS.cpp:82";
+      mkAcc (Named "GaussianMixture::dim_linear") Wr (Plain) "SIS.cpp:82";
+      mkAcc (Named "GaussianMixture::dim_circular") Wr (Plain) "SIS.cpp:82";
+      mkAcc (Named "GaussianMixture::dim_noise") Wr (Plain) "SIS.cpp:82";
+      mkAcc (Named "GaussianMixture::dim_covariance") Wr (Plain) "SIS.cpp:82";
+      mkAcc (Named "GaussianMixture::mean_") Wr (Plain) "SIS.cpp:82";
+      mkAcc (Named "GaussianMixture::covariance_") Wr (Plain) "SIS.cpp:82";
+      mkAcc (Named "GaussianMixture::weight_") Wr (Plain) "SIS.cpp:82";
       mkAcc (Named "SIS::cor_particle_") Wr (Plain) "SIS.cpp:82"];
   mkEntry "SIS::initialization_step" Flt Concurrent [
       mkAcc (Named "SIS::pred_particle_") Wr (Plain) "SIS.cpp:54"];
@@ -287,21 +791,77 @@ Definition prefix_table : table := [
       mkAcc (Named "SUKFCorrection::measurement_model_") Rd (Plain) "SUKFCorrection.cpp:85";
       mkAcc (Named "SUKFCorrection::measurement_model_") Rd (Plain) "SUKFCorrection.cpp:87";
       mkAcc (Named "SUKFCorrection::measurement_sub_size_") Rd (Plain) "SUKFCorrection.cpp:91";
+      mkAcc (Named "GaussianMixture::components") Wr (Plain) "SUKFCorrection.cpp:95";
+      mkAcc (Named "GaussianMixture::use_quaternion") Wr (Plain) "SUKFCorrection.cpp:95";
+      mkAcc (Named "GaussianMixture::dim_circular_component") Wr (Plain) "SUKFCorrection.cpp:95";
+      mkAcc (Named "GaussianMixture::dim") Wr (Plain) "SUKFCorrection.cpp:95";
+      mkAcc (Named "GaussianMixture::dim_linear") Wr (Plain) "SUKFCorrection.cpp:95";
+      mkAcc (Named "GaussianMixture::dim_circular") Wr (Plain) "SUKFCorrection.cpp:95";
+      mkAcc (Named "GaussianMixture::dim_noise") Wr (Plain) "SUKFCorrection.cpp:95";
+      mkAcc (Named "GaussianMixture::dim_covariance") Wr (Plain) "SUKFCorrection.cpp:95";
+      mkAcc (Named "GaussianMixture::mean_") Wr (Plain) "SUKFCorrection.cpp:95";
+      mkAcc (Named "GaussianMixture::covariance_") Wr (Plain) "SUKFCorrection.cpp:95";
+      mkAcc (Named "GaussianMixture::weight_") Wr (Plain) "SUKFCorrection.cpp:95";
+      mkAcc (Named "UTWeight::c") Rd (Plain) "SUKFCorrection.cpp:100";
       mkAcc (Named "SUKFCorrection::ut_weight_") Rd (Plain) "SUKFCorrection.cpp:100";
       mkAcc (Named "SUKFCorrection::measurement_model_") Rd (Plain) "SUKFCorrection.cpp:105";
+      mkAcc (Named "GaussianMixture::components") Wr (Plain) "SUKFCorrection.cpp:109";
+      mkAcc (Named "GaussianMixture::use_quaternion") Wr (Plain) "SUKFCorrection.cpp:109";
+      mkAcc (Named "GaussianMixture::dim_circular_component") Wr (Plain) "SUKFCorrection.cpp:109";
+      mkAcc (Named "GaussianMixture::dim") Wr (Plain) "SUKFCorrection.cpp:109";
+      mkAcc (Named "GaussianMixture::dim_linear") Wr (Plain) "SUKFCorrection.cpp:109";
+      mkAcc (Named "GaussianMixture::dim_circular") Wr (Plain) "SUKFCorrection.cpp:109";
+      mkAcc (Named "GaussianMixture::dim_noise") Wr (Plain) "SUKFCorrection.cpp:109";
+      mkAcc (Named "GaussianMixture::dim_covariance") Wr (Plain) "SUKFCorrection.cpp:109";
+      mkAcc (Named "GaussianMixture::mean_") Wr (Plain) "SUKFCorrection.cpp:109";
+      mkAcc (Named "GaussianMixture::covariance_") Wr (Plain) "SUKFCorrection.cpp:109";
+      mkAcc (Named "GaussianMixture::weight_") Wr (Plain) "SUKFCorrection.cpp:109";
       mkAcc (Named "SUKFCorrection::propagated_sigma_points_") Wr (Plain) "SUKFCorrection.cpp:114";
+      mkAcc (Named "GaussianMixture::dim") Rd (Plain) "SUKFCorrection.cpp:117";
+      mkAcc (Named "GaussianMixture::components") Wr (Plain) "SUKFCorrection.cpp:118";
+      mkAcc (Named "GaussianMixture::components") Rd (Plain) "SUKFCorrection.cpp:119";
       mkAcc (Named "SUKFCorrection::propagated_sigma_points_") Wr (Plain) "SUKFCorrection.cpp:121";
+      mkAcc (Named "UTWeight::mean") Rd (Plain) "SUKFCorrection.cpp:124";
       mkAcc (Named "SUKFCorrection::ut_weight_") Rd (Plain) "SUKFCorrection.cpp:124";
       mkAcc (Named "SUKFCorrection::measurement_model_") Rd (Plain) "SUKFCorrection.cpp:130";
+      mkAcc (Named "GaussianMixture::components") Wr (Plain) "SUKFCorrection.cpp:134";
+      mkAcc (Named "GaussianMixture::use_quaternion") Wr (Plain) "SUKFCorrection.cpp:134";
+      mkAcc (Named "GaussianMixture::dim_circular_component") Wr (Plain) "SUKFCorrection.cpp:134";
+      mkAcc (Named "GaussianMixture::dim") Wr (Plain) "SUKFCorrection.cpp:134";
+      mkAcc (Named "GaussianMixture::dim_linear") Wr (Plain) "SUKFCorrection.cpp:134";
+      mkAcc (Named "GaussianMixture::dim_circular") Wr (Plain) "SUKFCorrection.cpp:134";
+      mkAcc (Named "GaussianMixture::dim_noise") Wr (Plain) "SUKFCorrection.cpp:134";
+      mkAcc (Named "GaussianMixture::dim_covariance") Wr (Plain) "SUKFCorrection.cpp:134";
+      mkAcc (Named "GaussianMixture::mean_") Wr (Plain) "SUKFCorrection.cpp:134";
+      mkAcc (Named "GaussianMixture::covariance_") Wr (Plain) "SUKFCorrection.cpp:134";
+      mkAcc (Named "GaussianMixture::weight_") Wr (Plain) "SUKFCorrection.cpp:134";
       mkAcc (Named "SUKFCorrection::innovations_") Wr (Plain) "SUKFCorrection.cpp:139";
+      mkAcc (Named "UTWeight::covariance") Wr (Plain) "SUKFCorrection.cpp:148";
       mkAcc (Named "SUKFCorrection::ut_weight_") Wr (Plain) "SUKFCorrection.cpp:148";
+      mkAcc (Named "GaussianMixture::components") Rd (Plain) "SUKFCorrection.cpp:149";
       mkAcc (Named "SUKFCorrection::propagated_sigma_points_") Wr (Plain) "SUKFCorrection.cpp:153";
       mkAcc (Named "SUKFCorrection::measurement_sub_size_") Rd (Plain) "SUKFCorrection.cpp:166";
       mkAcc (Named "SUKFCorrection::measurement_sub_size_") Rd (Plain) "SUKFCorrection.cpp:168";
       mkAcc (Named "SUKFCorrection::measurement_sub_size_") Rd (Plain) "SUKFCorrection.cpp:169";
       mkAcc (Named "SUKFCorrection::measurement_sub_size_") Rd (Plain) "SUKFCorrection.cpp:171";
       mkAcc (Named "SUKFCorrection::innovations_") Wr (Plain) "SUKFCorrection.cpp:173";
-      mkAcc (Named "SUKFCorrection::measurement_sub_size_") Rd (Plain) "SUKFCorrection.cpp:173"];
+      mkAcc (Named "SUKFCorrection::measurement_sub_size_") Rd (Plain) "SUKFCorrection.cpp:173";
+      mkAcc (Named "GaussianMixture::dim_linear") Rd (Plain) "SUKFCorrection.cpp:179";
+      mkAcc (Named "GaussianMixture::dim_circular") Rd (Plain) "SUKFCorrection.cpp:180"];
+  mkEntry "SUKFCorrection::getLikelihood" Flt Concurrent [
+      mkAcc (Named "SUKFCorrection::innovations_") Rd (Plain) "SUKFCorrection.cpp:54";
+      mkAcc (Named "SUKFCorrection::measurement_sub_size_") Rd (Plain) "SUKFCorrection.cpp:58";
+      mkAcc (Named "SUKFCorrection::innovations_") Rd (Plain) "SUKFCorrection.cpp:58";
+      mkAcc (Named "SUKFCorrection::innovations_") Rd (Plain) "SUKFCorrection.cpp:59";
+      mkAcc (Named "SUKFCorrection::measurement_sub_size_") Rd (Plain) "SUKFCorrection.cpp:59";
+      mkAcc (Named "SUKFCorrection::measurement_sub_size_") Rd (Plain) "SUKFCorrection.cpp:61";
+      mkAcc (Named "SUKFCorrection::innovations_") Rd (Plain) "SUKFCorrection.cpp:65";
+      mkAcc (Named "SUKFCorrection::propagated_sigma_points_") Rd (Plain) "SUKFCorrection.cpp:66";
+      mkAcc (Named "SUKFCorrection::innovations_") Rd (Plain) "SUKFCorrection.cpp:66";
+      mkAcc (Named "SUKFCorrection::innovations_") Rd (Plain) "SUKFCorrection.cpp:67";
+      mkAcc (Named "SUKFCorrection::propagated_sigma_points_") Wr (Plain) "SUKFCorrection.cpp:69";
+      mkAcc (Named "SUKFCorrection::innovations_") Wr (Plain) "SUKFCorrection.cpp:70";
+      mkAcc (Named "SUKFCorrection::innovations_") Rd (Plain) "SUKFCorrection.cpp:70"];
   mkEntry "SUKFCorrection::getMeasurementModel" Flt Concurrent [
       mkAcc (Named "SUKFCorrection::measurement_model_") Rd (Plain) "SUKFCorrection.cpp:44"];
   mkEntry "SUKFCorrection::getNoiseCovarianceMatrix" Flt Concurrent [
@@ -309,6 +869,34 @@ Definition prefix_table : table := [
       mkAcc (Named "SUKFCorrection::measurement_model_") Rd (Plain) "SUKFCorrection.cpp:200";
       mkAcc (Named "SUKFCorrection::use_reduced_noise_covariance_matrix_") Rd (Plain) "SUKFCorrection.cpp:202";
       mkAcc (Named "SUKFCorrection::measurement_sub_size_") Rd (Plain) "SUKFCorrection.cpp:205"];
+  mkEntry "SimulatedLinearSensor::freeze" Flt Concurrent [
+      mkAcc (Named "SimulatedLinearSensor::simulated_state_model_") Rd (Plain) "SimulatedLinearSensor.cpp:79";
+      mkAcc (Named "SimulatedLinearSensor::measurement_") Wr (Plain) "SimulatedLinearSensor.cpp:82";
+      mkAcc (Named "LTIMeasurementModel::H_") Rd (Plain) "SimulatedLinearSensor.cpp:82";
+      mkAcc (Named "SimulatedLinearSensor::simulated_state_model_") Rd (Plain) "SimulatedLinearSensor.cpp:82";
+      mkAcc (Named "global::ignore") Wr (Plain) "SimulatedLinearSensor.cpp:85";
+      mkAcc (Named "SimulatedLinearSensor::measurement_") Rd (Plain) "SimulatedLinearSensor.cpp:85";
+      mkAcc (Named "SimulatedLinearSensor::measurement_") Wr (Plain) "SimulatedLinearSensor.cpp:87"];
+  mkEntry "SimulatedLinearSensor::getInputDescription" Flt Concurrent [
+      mkAcc (Named "SimulatedLinearSensor::input_description_") Wr (Plain) "SimulatedLinearSensor.cpp:103"];
+  mkEntry "SimulatedLinearSensor::getMeasurementDescription" Flt Concurrent [
+      mkAcc (Named "SimulatedLinearSensor::measurement_description_") Wr (Plain) "SimulatedLinearSensor.cpp:109"];
+  mkEntry "SimulatedLinearSensor::log" Flt Concurrent [
+      mkAcc (Named "SimulatedLinearSensor::measurement_") Wr (Plain) "SimulatedLinearSensor.cpp:115"];
+  mkEntry "SimulatedLinearSensor::measure" Flt Concurrent [
+      mkAcc (Named "SimulatedLinearSensor::measurement_") Wr (Plain) "SimulatedLinearSensor.cpp:97"];
+  mkEntry "SimulatedStateModel::bufferData" Flt Concurrent [
+      mkAcc (Named "SimulatedStateModel::current_simulation_time_") Rd (Plain) "SimulatedStateModel.cpp:40";
+      mkAcc (Named "SimulatedStateModel::simulation_time_") Rd (Plain) "SimulatedStateModel.cpp:40";
+      mkAcc (Named "SimulatedStateModel::current_simulation_time_") Wr (Plain) "SimulatedStateModel.cpp:43";
+      mkAcc (Named "SimulatedStateModel::target_") Wr (Plain) "SimulatedStateModel.cpp:47";
+      mkAcc (Named "SimulatedStateModel::current_simulation_time_") Rd (Plain) "SimulatedStateModel.cpp:47";
+      mkAcc (Named "SimulatedStateModel::data_simulated_state_model_") Wr (Plain) "SimulatedStateModel.cpp:49"];
+  mkEntry "SimulatedStateModel::getData" Flt Concurrent [
+      mkAcc (Named "SimulatedStateModel::data_simulated_state_model_") Wr (Plain) "SimulatedStateModel.cpp:57"];
+  mkEntry "SimulatedStateModel::log" Flt Concurrent [
+      mkAcc (Named "SimulatedStateModel::target_") Wr (Plain) "SimulatedStateModel.cpp:83";
+      mkAcc (Named "SimulatedStateModel::current_simulation_time_") Rd (Plain) "SimulatedStateModel.cpp:83"];
   mkEntry "StateModel::exogenous_model" Flt Concurrent [
       mkAcc (Named "StateModel::exogenous_model_") Rd (Plain) "StateModel.cpp:57";
       mkAcc (Named "StateModel::exogenous_model_") Rd (Plain) "StateModel.cpp:58"];
@@ -324,26 +912,72 @@ Definition prefix_table : table := [
       mkAcc (Named "StateModel::skip_") Rd (Plain) "StateModel.cpp:34"];
   mkEntry "UKFCorrection::correctStep" Flt Concurrent [
       mkAcc (Named "UKFCorrection::innovations_") Wr (Plain) "UKFCorrection.cpp:89";
-      mkAcc (Named "UKFCorrection::type_") Rd (Plain) "UKFCorrection.cpp:111";
-      mkAcc (Named "global::ignore") Wr (Plain) "UKFCorrection.cpp:117";
-      mkAcc (Named "UKFCorrection::update_weights_online_") Rd (Plain) "UKFCorrection.cpp:120";
-      mkAcc (Named "UKFCorrection::ut_weight_") Wr (Plain) "UKFCorrection.cpp:121";
-      mkAcc (Named "UKFCorrection::measurement_model_") Rd (Plain) "UKFCorrection.cpp:121";
-      mkAcc (Named "UKFCorrection::ut_alpha_") Rd (Plain) "UKFCorrection.cpp:121";
-      mkAcc (Named "UKFCorrection::ut_beta_") Rd (Plain) "UKFCorrection.cpp:121";
-      mkAcc (Named "UKFCorrection::ut_kappa_") Rd (Plain) "UKFCorrection.cpp:121";
-      mkAcc (Named "UKFCorrection::predicted_meas_") Wr (Plain) "UKFCorrection.cpp:123";
-      mkAcc (Named "UKFCorrection::ut_weight_") Rd (Plain) "UKFCorrection.cpp:123";
-      mkAcc (Named "UKFCorrection::measurement_model_") Rd (Plain) "UKFCorrection.cpp:123";
-      mkAcc (Named "UKFCorrection::type_") Rd (Plain) "UKFCorrection.cpp:125";
-      mkAcc (Named "UKFCorrection::predicted_meas_") Wr (Plain) "UKFCorrection.cpp:127";
-      mkAcc (Named "UKFCorrection::ut_weight_") Rd (Plain) "UKFCorrection.cpp:127";
-      mkAcc (Named "UKFCorrection::additive_measurement_model_") Rd (Plain) "UKFCorrection.cpp:127";
-      mkAcc (Named "UKFCorrection::predicted_meas_") Wr (Plain) "UKFCorrection.cpp:143";
-      mkAcc (Named "UKFCorrection::innovations_") Wr (Plain) "UKFCorrection.cpp:153";
-      mkAcc (Named "UKFCorrection::predicted_meas_") Wr (Plain) "UKFCorrection.cpp:160";
-      mkAcc (Named "UKFCorrection::innovations_") Wr (Plain) "UKFCorrection.cpp:164";
-      mkAcc (Named "UKFCorrection::predicted_meas_") Wr (Plain) "UKFCorrection.cpp:168"];
+      mkAcc (Named "GaussianMixture::components") Wr (Plain) "UKFCorrection.cpp:101";
+      mkAcc (Named "GaussianMixture::use_quaternion") Wr (Plain) "UKFCorrection.cpp:101";
+      mkAcc (Named "GaussianMixture::dim_circular_component") Wr (Plain) "UKFCorrection.cpp:101";
+      mkAcc (Named "GaussianMixture::dim") Wr (Plain) "UKFCorrection.cpp:101";
+      mkAcc (Named "GaussianMixture::dim_linear") Wr (Plain) "UKFCorrection.cpp:101";
+      mkAcc (Named "GaussianMixture::dim_circular") Wr (Plain) "UKFCorrection.cpp:101";
+      mkAcc (Named "GaussianMixture::dim_noise") Wr (Plain) "UKFCorrection.cpp:101";
+      mkAcc (Named "GaussianMixture::dim_covariance") Wr (Plain) "UKFCorrection.cpp:101";
+      mkAcc (Named "GaussianMixture::mean_") Wr (Plain) "UKFCorrection.cpp:101";
+      mkAcc (Named "GaussianMixture::covariance_") Wr (Plain) "UKFCorrection.cpp:101";
+      mkAcc (Named "GaussianMixture::weight_") Wr (Plain) "UKFCorrection.cpp:101";
+      mkAcc (Named "UKFCorrection::type_") Rd (Plain) "UKFCorrection.cpp:108";
+      mkAcc (Named "global::ignore") Wr (Plain) "UKFCorrection.cpp:114";
+      mkAcc (Named "UKFCorrection::update_weights_online_") Rd (Plain) "UKFCorrection.cpp:117";
+      mkAcc (Named "UTWeight::mean") Wr (Plain) "UKFCorrection.cpp:118";
+      mkAcc (Named "UTWeight::covariance") Wr (Plain) "UKFCorrection.cpp:118";
+      mkAcc (Named "UTWeight::c") Wr (Plain) "UKFCorrection.cpp:118";
+      mkAcc (Named "UKFCorrection::ut_weight_") Wr (Plain) "UKFCorrection.cpp:118";
+      mkAcc (Named "UKFCorrection::measurement_model_") Rd (Plain) "UKFCorrection.cpp:118";
+      mkAcc (Named "UKFCorrection::ut_alpha_") Rd (Plain) "UKFCorrection.cpp:118";
+      mkAcc (Named "UKFCorrection::ut_beta_") Rd (Plain) "UKFCorrection.cpp:118";
+      mkAcc (Named "UKFCorrection::ut_kappa_") Rd (Plain) "UKFCorrection.cpp:118";
+      mkAcc (Named "UKFCorrection::predicted_meas_") Wr (Plain) "UKFCorrection.cpp:120";
+      mkAcc (Named "UKFCorrection::ut_weight_") Rd (Plain) "UKFCorrection.cpp:120";
+      mkAcc (Named "UKFCorrection::measurement_model_") Rd (Plain) "UKFCorrection.cpp:120";
+      mkAcc (Named "UKFCorrection::type_") Rd (Plain) "UKFCorrection.cpp:122";
+      mkAcc (Named "UKFCorrection::predicted_meas_") Wr (Plain) "UKFCorrection.cpp:124";
+      mkAcc (Named "UKFCorrection::ut_weight_") Rd (Plain) "UKFCorrection.cpp:124";
+      mkAcc (Named "UKFCorrection::additive_measurement_model_") Rd (Plain) "UKFCorrection.cpp:124";
+      mkAcc (Named "GaussianMixture::components") Wr (Plain) "UKFCorrection.cpp:129";
+      mkAcc (Named "GaussianMixture::use_quaternion") Wr (Plain) "UKFCorrection.cpp:129";
+      mkAcc (Named "GaussianMixture::dim_circular_component") Wr (Plain) "UKFCorrection.cpp:129";
+      mkAcc (Named "GaussianMixture::dim") Wr (Plain) "UKFCorrection.cpp:129";
+      mkAcc (Named "GaussianMixture::dim_linear") Wr (Plain) "UKFCorrection.cpp:129";
+      mkAcc (Named "GaussianMixture::dim_circular") Wr (Plain) "UKFCorrection.cpp:129";
+      mkAcc (Named "GaussianMixture::dim_noise") Wr (Plain) "UKFCorrection.cpp:129";
+      mkAcc (Named "GaussianMixture::dim_covariance") Wr (Plain) "UKFCorrection.cpp:129";
+      mkAcc (Named "GaussianMixture::mean_") Wr (Plain) "UKFCorrection.cpp:129";
+      mkAcc (Named "GaussianMixture::covariance_") Wr (Plain) "UKFCorrection.cpp:129";
+      mkAcc (Named "GaussianMixture::weight_") Wr (Plain) "UKFCorrection.cpp:129";
+      mkAcc (Named "UKFCorrection::predicted_meas_") Wr (Plain) "UKFCorrection.cpp:140";
+      mkAcc (Named "GaussianMixture::components") Wr (Plain) "UKFCorrection.cpp:145";
+      mkAcc (Named "GaussianMixture::use_quaternion") Wr (Plain) "UKFCorrection.cpp:145";
+      mkAcc (Named "GaussianMixture::dim_circular_component") Wr (Plain) "UKFCorrection.cpp:145";
+      mkAcc (Named "GaussianMixture::dim") Wr (Plain) "UKFCorrection.cpp:145";
+      mkAcc (Named "GaussianMixture::dim_linear") Wr (Plain) "UKFCorrection.cpp:145";
+      mkAcc (Named "GaussianMixture::dim_circular") Wr (Plain) "UKFCorrection.cpp:145";
+      mkAcc (Named "GaussianMixture::dim_noise") Wr (Plain) "UKFCorrection.cpp:145";
+      mkAcc (Named "GaussianMixture::dim_covariance") Wr (Plain) "UKFCorrection.cpp:145";
+      mkAcc (Named "GaussianMixture::mean_") Wr (Plain) "UKFCorrection.cpp:145";
+      mkAcc (Named "GaussianMixture::covariance_") Wr (Plain) "UKFCorrection.cpp:145";
+      mkAcc (Named "GaussianMixture::weight_") Wr (Plain) "UKFCorrection.cpp:145";
+      mkAcc (Named "UKFCorrection::innovations_") Wr (Plain) "UKFCorrection.cpp:150";
+      mkAcc (Named "GaussianMixture::components") Rd (Plain) "UKFCorrection.cpp:153";
+      mkAcc (Named "GaussianMixture::dim_covariance") Rd (Plain) "UKFCorrection.cpp:158";
+      mkAcc (Named "UKFCorrection::predicted_meas_") Rd (Plain) "UKFCorrection.cpp:158";
+      mkAcc (Named "UKFCorrection::predicted_meas_") Wr (Plain) "UKFCorrection.cpp:159";
+      mkAcc (Named "UKFCorrection::innovations_") Wr (Plain) "UKFCorrection.cpp:163";
+      mkAcc (Named "UKFCorrection::predicted_meas_") Wr (Plain) "UKFCorrection.cpp:167"];
+  mkEntry "UKFCorrection::getLikelihood" Flt Concurrent [
+      mkAcc (Named "UKFCorrection::innovations_") Rd (Plain) "UKFCorrection.cpp:73";
+      mkAcc (Named "UKFCorrection::innovations_") Rd (Plain) "UKFCorrection.cpp:76";
+      mkAcc (Named "UKFCorrection::innovations_") Rd (Plain) "UKFCorrection.cpp:77";
+      mkAcc (Named "UKFCorrection::innovations_") Wr (Plain) "UKFCorrection.cpp:79";
+      mkAcc (Named "UKFCorrection::innovations_") Rd (Plain) "UKFCorrection.cpp:79";
+      mkAcc (Named "UKFCorrection::predicted_meas_") Wr (Plain) "UKFCorrection.cpp:79"];
   mkEntry "UKFCorrection::getMeasurementModel" Flt Concurrent [
       mkAcc (Named "UKFCorrection::type_") Rd (Plain) "UKFCorrection.cpp:64";
       mkAcc (Named "UKFCorrection::additive_measurement_model_") Rd (Plain) "UKFCorrection.cpp:65";
@@ -353,6 +987,17 @@ Definition prefix_table : table := [
       mkAcc (Named "UKFPrediction::add_state_model_") Rd (Plain) "UKFPrediction.cpp:72";
       mkAcc (Named "UKFPrediction::state_model_") Rd (Plain) "UKFPrediction.cpp:74"];
   mkEntry "UKFPrediction::predictStep" Flt Concurrent [
+      mkAcc (Named "GaussianMixture::components") Wr (Plain) "UKFPrediction.cpp:82";
+      mkAcc (Named "GaussianMixture::use_quaternion") Wr (Plain) "UKFPrediction.cpp:82";
+      mkAcc (Named "GaussianMixture::dim_circular_component") Wr (Plain) "UKFPrediction.cpp:82";
+      mkAcc (Named "GaussianMixture::dim") Wr (Plain) "UKFPrediction.cpp:82";
+      mkAcc (Named "GaussianMixture::dim_linear") Wr (Plain) "UKFPrediction.cpp:82";
+      mkAcc (Named "GaussianMixture::dim_circular") Wr (Plain) "UKFPrediction.cpp:82";
+      mkAcc (Named "GaussianMixture::dim_noise") Wr (Plain) "UKFPrediction.cpp:82";
+      mkAcc (Named "GaussianMixture::dim_covariance") Wr (Plain) "UKFPrediction.cpp:82";
+      mkAcc (Named "GaussianMixture::mean_") Wr (Plain) "UKFPrediction.cpp:82";
+      mkAcc (Named "GaussianMixture::covariance_") Wr (Plain) "UKFPrediction.cpp:82";
+      mkAcc (Named "GaussianMixture::weight_") Wr (Plain) "UKFPrediction.cpp:82";
       mkAcc (Named "UKFPrediction::type_") Rd (Plain) "UKFPrediction.cpp:89";
       mkAcc (Named "UKFPrediction::state_model_") Rd (Plain) "UKFPrediction.cpp:93";
       mkAcc (Named "global::ignore") Wr (Plain) "UKFPrediction.cpp:95";
@@ -362,16 +1007,44 @@ Definition prefix_table : table := [
       mkAcc (Named "global::ignore") Wr (Plain) "UKFPrediction.cpp:99";
       mkAcc (Named "UKFPrediction::ut_weight_") Rd (Plain) "UKFPrediction.cpp:99";
       mkAcc (Named "UKFPrediction::add_state_model_") Rd (Plain) "UKFPrediction.cpp:99"];
+  mkEntry "VectorDescription::circular_components" Flt Concurrent [
+      mkAcc (Named "VectorDescription::circular_components_") Rd (Plain) "VectorDescription.cpp:35"];
+  mkEntry "VectorDescription::circular_size" Flt Concurrent [
+      mkAcc (Named "VectorDescription::circular_type") Rd (Plain) "VectorDescription.cpp:53";
+      mkAcc (Named "VectorDescription::circular_components_") Rd (Plain) "VectorDescription.cpp:54";
+      mkAcc (Named "VectorDescription::circular_components_") Rd (Plain) "VectorDescription.cpp:56"];
+  mkEntry "VectorDescription::linear_components" Flt Concurrent [
+      mkAcc (Named "VectorDescription::linear_components_") Rd (Plain) "VectorDescription.cpp:29"];
+  mkEntry "VectorDescription::linear_size" Flt Concurrent [
+      mkAcc (Named "VectorDescription::linear_components_") Rd (Plain) "VectorDescription.cpp:47"];
+  mkEntry "VectorDescription::noise_size" Flt Concurrent [
+      mkAcc (Named "VectorDescription::noise_components_") Rd (Plain) "VectorDescription.cpp:62"];
+  mkEntry "VectorDescription::total_size" Flt Concurrent [
+      ];
   mkEntry "WhiteNoiseAcceleration::getNoiseCovarianceMatrix" Flt Concurrent [
+      mkAcc (Named "ImplData::Q_") Rd (Plain) "WhiteNoiseAcceleration.cpp:206";
       mkAcc (Named "WhiteNoiseAcceleration::pimpl_") Rd (Plain) "WhiteNoiseAcceleration.cpp:206"];
   mkEntry "WhiteNoiseAcceleration::getNoiseSample" Flt Concurrent [
+      mkAcc (Named "ImplData::sqrt_Q_") Rd (Plain) "WhiteNoiseAcceleration.cpp:196";
       mkAcc (Named "WhiteNoiseAcceleration::pimpl_") Rd (Plain) "WhiteNoiseAcceleration.cpp:196";
+      mkAcc (Named "ImplData::gauss_rnd_sample_") Rd (Plain) "WhiteNoiseAcceleration.cpp:198";
       mkAcc (Named "WhiteNoiseAcceleration::pimpl_") Rd (Plain) "WhiteNoiseAcceleration.cpp:198";
+      mkAcc (Named "ImplData::sqrt_Q_") Rd (Plain) "WhiteNoiseAcceleration.cpp:200";
       mkAcc (Named "WhiteNoiseAcceleration::pimpl_") Rd (Plain) "WhiteNoiseAcceleration.cpp:200"];
+  mkEntry "WhiteNoiseAcceleration::getStateDescription" Flt Concurrent [
+      mkAcc (Named "ImplData::state_description_") Rd (Plain) "WhiteNoiseAcceleration.cpp:190";
+      mkAcc (Named "WhiteNoiseAcceleration::pimpl_") Rd (Plain) "WhiteNoiseAcceleration.cpp:190"];
   mkEntry "WhiteNoiseAcceleration::getStateTransitionMatrix" Flt Concurrent [
+      mkAcc (Named "ImplData::F_") Rd (Plain) "WhiteNoiseAcceleration.cpp:212";
       mkAcc (Named "WhiteNoiseAcceleration::pimpl_") Rd (Plain) "WhiteNoiseAcceleration.cpp:212"];
   mkEntry "WhiteNoiseAcceleration::getTransitionProbability" Flt Concurrent [
-      mkAcc (Named "WhiteNoiseAcceleration::pimpl_") Rd (Plain) "WhiteNoiseAcceleration.cpp:219"];
+      mkAcc (Named "ImplData::F_") Rd (Plain) "WhiteNoiseAcceleration.cpp:219";
+      mkAcc (Named "WhiteNoiseAcceleration::pimpl_") Rd (Plain) "WhiteNoiseAcceleration.cpp:219";
+      mkAcc (Named "ImplData::Q_") Rd (Plain) "WhiteNoiseAcceleration.cpp:219"];
+  mkEntry "any::operator=" Flt Concurrent [
+      ];
+  mkEntry "any::swap" Flt Concurrent [
+      mkAcc (Named "any::content") Wr (Plain) "any.h:225"];
   mkEntry "(destruction)" Ctl PostJoin [
       mkAcc (Named "BootstrapCorrection::likelihood_") Wr (Plain) "destruction";
       mkAcc (Named "BootstrapCorrection::likelihood_model_") Wr (Plain) "destruction";
@@ -386,8 +1059,10 @@ Definition prefix_table : table := [
       mkAcc (Named "FilteringAlgorithm::reset_") Wr (Plain) "destruction";
       mkAcc (Named "FilteringAlgorithm::run_") Wr (Plain) "destruction";
       mkAcc (Named "FilteringAlgorithm::teardown_") Wr (Plain) "destruction";
+      mkAcc (Named "GPFCorrection::distribution_") Wr (Plain) "destruction";
       mkAcc (Named "GPFCorrection::gaussian_correction_") Wr (Plain) "destruction";
       mkAcc (Named "GPFCorrection::gaussian_random_sample_") Wr (Plain) "destruction";
+      mkAcc (Named "GPFCorrection::generator_") Wr (Plain) "destruction";
       mkAcc (Named "GPFCorrection::likelihood_") Wr (Plain) "destruction";
       mkAcc (Named "GPFCorrection::likelihood_model_") Wr (Plain) "destruction";
       mkAcc (Named "GPFCorrection::state_model_") Wr (Plain) "destruction";
@@ -396,19 +1071,56 @@ Definition prefix_table : table := [
       mkAcc (Named "GaussianCorrection::skip_") Wr (Plain) "destruction";
       mkAcc (Named "GaussianFilter::correction_") Wr (Plain) "destruction";
       mkAcc (Named "GaussianFilter::prediction_") Wr (Plain) "destruction";
+      mkAcc (Named "GaussianLikelihood::scale_factor_") Wr (Plain) "destruction";
+      mkAcc (Named "GaussianMixture::components") Wr (Plain) "destruction";
+      mkAcc (Named "GaussianMixture::covariance_") Wr (Plain) "destruction";
+      mkAcc (Named "GaussianMixture::dim") Wr (Plain) "destruction";
+      mkAcc (Named "GaussianMixture::dim_circular") Wr (Plain) "destruction";
+      mkAcc (Named "GaussianMixture::dim_circular_component") Wr (Plain) "destruction";
+      mkAcc (Named "GaussianMixture::dim_covariance") Wr (Plain) "destruction";
+      mkAcc (Named "GaussianMixture::dim_linear") Wr (Plain) "destruction";
+      mkAcc (Named "GaussianMixture::dim_noise") Wr (Plain) "destruction";
+      mkAcc (Named "GaussianMixture::mean_") Wr (Plain) "destruction";
+      mkAcc (Named "GaussianMixture::use_quaternion") Wr (Plain) "destruction";
+      mkAcc (Named "GaussianMixture::weight_") Wr (Plain) "destruction";
       mkAcc (Named "GaussianPrediction::skip_") Wr (Plain) "destruction";
+      mkAcc (Named "ImplData::F_") Wr (Plain) "destruction";
+      mkAcc (Named "ImplData::Q_") Wr (Plain) "destruction";
+      mkAcc (Named "ImplData::distribution_") Wr (Plain) "destruction";
+      mkAcc (Named "ImplData::gauss_rnd_sample_") Wr (Plain) "destruction";
+      mkAcc (Named "ImplData::generator_") Wr (Plain) "destruction";
+      mkAcc (Named "ImplData::sqrt_Q_") Wr (Plain) "destruction";
+      mkAcc (Named "ImplData::state_description_") Wr (Plain) "destruction";
+      mkAcc (Named "InitSurveillanceAreaGrid::num_particle_x_") Wr (Plain) "destruction";
+      mkAcc (Named "InitSurveillanceAreaGrid::num_particle_y_") Wr (Plain) "destruction";
+      mkAcc (Named "InitSurveillanceAreaGrid::surv_x_inf_") Wr (Plain) "destruction";
+      mkAcc (Named "InitSurveillanceAreaGrid::surv_x_sup_") Wr (Plain) "destruction";
+      mkAcc (Named "InitSurveillanceAreaGrid::surv_y_inf_") Wr (Plain) "destruction";
+      mkAcc (Named "InitSurveillanceAreaGrid::surv_y_sup_") Wr (Plain) "destruction";
       mkAcc (Named "KFCorrection::innovations_") Wr (Plain) "destruction";
       mkAcc (Named "KFCorrection::meas_covariances_") Wr (Plain) "destruction";
       mkAcc (Named "KFCorrection::measurement_model_") Wr (Plain) "destruction";
       mkAcc (Named "KFPrediction::state_model_") Wr (Plain) "destruction";
+      mkAcc (Named "LTIMeasurementModel::H_") Wr (Plain) "destruction";
+      mkAcc (Named "LTIMeasurementModel::R_") Wr (Plain) "destruction";
       mkAcc (Named "LTIStateModel::F_") Wr (Plain) "destruction";
       mkAcc (Named "LTIStateModel::Q_") Wr (Plain) "destruction";
+      mkAcc (Named "LinearModel::distribution_") Wr (Plain) "destruction";
+      mkAcc (Named "LinearModel::gauss_rnd_sample_") Wr (Plain) "destruction";
+      mkAcc (Named "LinearModel::generator_") Wr (Plain) "destruction";
+      mkAcc (Named "LinearModel::sqrt_R_") Wr (Plain) "destruction";
+      mkAcc (Named "Logger::log_enabled_") Wr (Plain) "destruction";
+      mkAcc (Named "Logger::log_files_") Wr (Plain) "destruction";
       mkAcc (Named "PFCorrection::skip_") Wr (Plain) "destruction";
       mkAcc (Named "PFPrediction::skip_") Wr (Plain) "destruction";
       mkAcc (Named "ParticleFilter::correction_") Wr (Plain) "destruction";
       mkAcc (Named "ParticleFilter::initialization_") Wr (Plain) "destruction";
       mkAcc (Named "ParticleFilter::prediction_") Wr (Plain) "destruction";
       mkAcc (Named "ParticleFilter::resampling_") Wr (Plain) "destruction";
+      mkAcc (Named "ParticleSet::state_") Wr (Plain) "destruction";
+      mkAcc (Named "Resampling::generator_") Wr (Plain) "destruction";
+      mkAcc (Named "ResamplingWithPrior::init_model_") Wr (Plain) "destruction";
+      mkAcc (Named "ResamplingWithPrior::prior_ratio_") Wr (Plain) "destruction";
       mkAcc (Named "SIS::cor_particle_") Wr (Plain) "destruction";
       mkAcc (Named "SIS::num_particle_") Wr (Plain) "destruction";
       mkAcc (Named "SIS::pred_particle_") Wr (Plain) "destruction";
@@ -418,6 +1130,14 @@ Definition prefix_table : table := [
       mkAcc (Named "SUKFCorrection::propagated_sigma_points_") Wr (Plain) "destruction";
       mkAcc (Named "SUKFCorrection::use_reduced_noise_covariance_matrix_") Wr (Plain) "destruction";
       mkAcc (Named "SUKFCorrection::ut_weight_") Wr (Plain) "destruction";
+      mkAcc (Named "SimulatedLinearSensor::input_description_") Wr (Plain) "destruction";
+      mkAcc (Named "SimulatedLinearSensor::measurement_") Wr (Plain) "destruction";
+      mkAcc (Named "SimulatedLinearSensor::measurement_description_") Wr (Plain) "destruction";
+      mkAcc (Named "SimulatedLinearSensor::simulated_state_model_") Wr (Plain) "destruction";
+      mkAcc (Named "SimulatedStateModel::current_simulation_time_") Wr (Plain) "destruction";
+      mkAcc (Named "SimulatedStateModel::data_simulated_state_model_") Wr (Plain) "destruction";
+      mkAcc (Named "SimulatedStateModel::simulation_time_") Wr (Plain) "destruction";
+      mkAcc (Named "SimulatedStateModel::target_") Wr (Plain) "destruction";
       mkAcc (Named "StateModel::exogenous_model_") Wr (Plain) "destruction";
       mkAcc (Named "StateModel::skip_") Wr (Plain) "destruction";
       mkAcc (Named "UKFCorrection::additive_measurement_model_") Wr (Plain) "destruction";
@@ -434,7 +1154,15 @@ Definition prefix_table : table := [
       mkAcc (Named "UKFPrediction::state_model_") Wr (Plain) "destruction";
       mkAcc (Named "UKFPrediction::type_") Wr (Plain) "destruction";
       mkAcc (Named "UKFPrediction::ut_weight_") Wr (Plain) "destruction";
-      mkAcc (Named "WhiteNoiseAcceleration::pimpl_") Wr (Plain) "destruction"]
+      mkAcc (Named "UTWeight::c") Wr (Plain) "destruction";
+      mkAcc (Named "UTWeight::covariance") Wr (Plain) "destruction";
+      mkAcc (Named "UTWeight::mean") Wr (Plain) "destruction";
+      mkAcc (Named "VectorDescription::circular_components_") Wr (Plain) "destruction";
+      mkAcc (Named "VectorDescription::circular_type") Wr (Plain) "destruction";
+      mkAcc (Named "VectorDescription::linear_components_") Wr (Plain) "destruction";
+      mkAcc (Named "VectorDescription::noise_components_") Wr (Plain) "destruction";
+      mkAcc (Named "WhiteNoiseAcceleration::pimpl_") Wr (Plain) "destruction";
+      mkAcc (Named "any::content") Wr (Plain) "destruction"]
 ].
 
 
